@@ -2,6 +2,3382 @@
    when the model was last validated against the code). Compared with the regenerated VGen.SkelC18 in VProps/PinC18.lean. -/
 namespace VPins.C18
 
+def eventV1__newEventFromTrustedJSONV1 : List String := [
+  "func func(eventJSON []byte, redacted bool, roomVersion IRoomVersion) (PDU, error)",
+  "res := &eventV1{}",
+  "if err := json.Unmarshal(eventJSON, res); err != nil {",
+  "return nil, err",
+  "}",
+  "if err := checkRoomIDField(res.eventFields.RoomID); err != nil {",
+  "return nil, fmt.Errorf(\"RoomID is invalid: %w\", err)",
+  "}",
+  "res.eventJSON = eventJSON",
+  "res.roomVersion = roomVersion.Version()",
+  "res.redacted = redacted",
+  "return res, nil"
+]
+
+def eventV1__newEventFromTrustedJSONWithEventIDV1 : List String := [
+  "func func(eventID string, eventJSON []byte, redacted bool, roomVersion IRoomVersion) (PDU, error)",
+  "res := &eventV1{}",
+  "if err := json.Unmarshal(eventJSON, res); err != nil {",
+  "return nil, err",
+  "}",
+  "if err := checkRoomIDField(res.eventFields.RoomID); err != nil {",
+  "return nil, err",
+  "}",
+  "res.EventIDRaw = eventID",
+  "res.eventJSON = eventJSON",
+  "res.roomVersion = roomVersion.Version()",
+  "res.redacted = redacted",
+  "return res, nil"
+]
+
+def eventV1__newEventFromUntrustedJSONV1 : List String := [
+  "func func(eventJSON []byte, roomVersion IRoomVersion) (PDU, error)",
+  "if r := gjson.GetBytes(eventJSON, \"_*\"); r.Exists() {",
+  "return nil, fmt.Errorf(\"gomatrixserverlib NewEventFromUntrustedJSON: found top-level '_' key, is this a headered event: %v\", string(eventJSON))",
+  "}",
+  "if err := roomVersion.CheckCanonicalJSON(eventJSON); err != nil {",
+  "return nil, BadJSONError{err}",
+  "}",
+  "res := &eventV1{}",
+  "res.roomVersion = roomVersion.Version()",
+  "var err error",
+  "for _, key := range []string{\"outlier\", \"destinations\", \"age_ts\", \"unsigned\"} {",
+  "if eventJSON, err = sjson.DeleteBytes(eventJSON, key); err != nil {",
+  "return nil, err",
+  "}",
+  "}",
+  "if err := json.Unmarshal(eventJSON, res); err != nil {",
+  "return nil, err",
+  "}",
+  "if err := checkRoomIDField(res.eventFields.RoomID); err != nil {",
+  "return nil, err",
+  "}",
+  "eventJSON = CanonicalJSONAssumeValid(eventJSON)",
+  "if l := len(eventJSON); l > maxEventLength {",
+  "return nil, EventValidationError{Code: EventValidationTooLarge, Message: fmt.Sprintf(\"gomatrixserverlib: event is too long, length %d bytes > maximum %d bytes\", l, maxEventLength)}",
+  "}",
+  "res.eventJSON = eventJSON",
+  "if err = checkEventContentHash(eventJSON); err != nil {",
+  "res.redacted = true",
+  "var redactedJSON []byte",
+  "if redactedJSON, err = roomVersion.RedactEventJSON(eventJSON); err != nil {",
+  "return nil, err",
+  "}",
+  "redactedJSON = CanonicalJSONAssumeValid(redactedJSON)",
+  "if !bytes.Equal(redactedJSON, eventJSON) {",
+  "result, err := roomVersion.NewEventFromTrustedJSON(redactedJSON, true)",
+  "if err != nil {",
+  "return nil, err",
+  "}",
+  "err = CheckFields(result)",
+  "return result, err",
+  "}",
+  "} else if _, err = roomVersion.RedactEventJSON(eventJSON); err != nil {",
+  "return nil, err",
+  "}",
+  "err = CheckFields(res)",
+  "return res, err"
+]
+
+def eventV1_eventV1_AuthEventIDs : List String := [
+  "func func() []string",
+  "result := make([]string, 0, len(e.AuthEvents))",
+  "for _, id := range e.AuthEvents {",
+  "result = append(result, id.EventID)",
+  "}",
+  "return result"
+]
+
+def eventV1_eventV1_Content : List String := [
+  "func func() []byte",
+  "return e.eventFields.Content"
+]
+
+def eventV1_eventV1_Depth : List String := [
+  "func func() int64",
+  "return e.eventFields.Depth"
+]
+
+def eventV1_eventV1_EventID : List String := [
+  "func func() string",
+  "return e.EventIDRaw"
+]
+
+def eventV1_eventV1_HistoryVisibility : List String := [
+  "func func() (HistoryVisibility, error)",
+  "if !e.StateKeyEquals(\"\") {",
+  "return \"\", fmt.Errorf(\"gomatrixserverlib: HistoryVisibility() event is not a m.room.history_visibility event, bad state key\")",
+  "}",
+  "var content HistoryVisibilityContent",
+  "if err := json.Unmarshal(e.eventFields.Content, &content); err != nil {",
+  "return \"\", err",
+  "}",
+  "return content.HistoryVisibility, nil"
+]
+
+def eventV1_eventV1_IsSticky : List String := [
+  "func func(now time.Time, received time.Time) bool",
+  "endTime := e.StickyEndTime(received)",
+  "if endTime.IsZero() {",
+  "return false",
+  "}",
+  "return endTime.After(now)"
+]
+
+def eventV1_eventV1_JSON : List String := [
+  "func func() []byte",
+  "return e.eventJSON"
+]
+
+def eventV1_eventV1_JoinRule : List String := [
+  "func func() (string, error)",
+  "if !e.StateKeyEquals(\"\") {",
+  "return \"\", fmt.Errorf(\"gomatrixserverlib: JoinRule() event is not a m.room.join_rules event, bad state key\")",
+  "}",
+  "var content JoinRuleContent",
+  "if err := json.Unmarshal(e.eventFields.Content, &content); err != nil {",
+  "return \"\", err",
+  "}",
+  "return content.JoinRule, nil"
+]
+
+def eventV1_eventV1_MarshalJSON : List String := [
+  "func func() ([]byte, error)",
+  "if e.eventJSON == nil {",
+  "return nil, fmt.Errorf(\"gomatrixserverlib: cannot serialise uninitialised Event\")",
+  "}",
+  "return e.eventJSON, nil"
+]
+
+def eventV1_eventV1_Membership : List String := [
+  "func func() (string, error)",
+  "var content struct { Membership string `json:\"membership\"` }",
+  "if err := json.Unmarshal(e.eventFields.Content, &content); err != nil {",
+  "return \"\", err",
+  "}",
+  "if e.StateKey() == nil {",
+  "return \"\", fmt.Errorf(\"gomatrixserverlib: Membersip() event is not a m.room.member event, missing state key\")",
+  "}",
+  "return content.Membership, nil"
+]
+
+def eventV1_eventV1_OriginServerTS : List String := [
+  "func func() spec.Timestamp",
+  "return e.eventFields.OriginServerTS"
+]
+
+def eventV1_eventV1_PowerLevels : List String := [
+  "func func() (*PowerLevelContent, error)",
+  "if !e.StateKeyEquals(\"\") {",
+  "return nil, fmt.Errorf(\"gomatrixserverlib: PowerLevels() event is not a m.room.power_levels event, bad state key\")",
+  "}",
+  "c, err := NewPowerLevelContentFromEvent(e)",
+  "if err != nil {",
+  "return nil, err",
+  "}",
+  "return &c, nil"
+]
+
+def eventV1_eventV1_PrevEventIDs : List String := [
+  "func func() []string",
+  "result := make([]string, 0, len(e.PrevEvents))",
+  "for _, id := range e.PrevEvents {",
+  "result = append(result, id.EventID)",
+  "}",
+  "return result"
+]
+
+def eventV1_eventV1_Redact : List String := [
+  "func func()",
+  "if e.redacted {",
+  "return",
+  "}",
+  "verImpl, err := GetRoomVersion(e.roomVersion)",
+  "if err != nil {",
+  "panic(fmt.Errorf(\"gomatrixserverlib: invalid event %v\", err))",
+  "}",
+  "eventJSON, err := verImpl.RedactEventJSON(e.eventJSON)",
+  "if err != nil {",
+  "panic(fmt.Errorf(\"gomatrixserverlib: invalid event %v\", err))",
+  "}",
+  "if eventJSON, err = EnforcedCanonicalJSON(eventJSON, e.roomVersion); err != nil {",
+  "panic(fmt.Errorf(\"gomatrixserverlib: invalid event %v\", err))",
+  "}",
+  "var res eventV1",
+  "err = json.Unmarshal(eventJSON, &res)",
+  "if err != nil {",
+  "panic(fmt.Errorf(\"gomatrixserverlib: populateFieldsFromJSON failed %v\", err))",
+  "}",
+  "res.redacted = true",
+  "res.roomVersion = e.roomVersion",
+  "res.eventJSON = eventJSON",
+  "*e = res"
+]
+
+def eventV1_eventV1_Redacted : List String := [
+  "func func() bool",
+  "return e.redacted"
+]
+
+def eventV1_eventV1_Redacts : List String := [
+  "func func() string",
+  "return e.eventFields.Redacts"
+]
+
+def eventV1_eventV1_RoomID : List String := [
+  "func func() spec.RoomID",
+  "roomID, err := spec.NewRoomID(e.eventFields.RoomID)",
+  "if err != nil {",
+  "panic(fmt.Errorf(\"RoomID is invalid: %w\", err))",
+  "}",
+  "return *roomID"
+]
+
+def eventV1_eventV1_SenderID : List String := [
+  "func func() spec.SenderID",
+  "return spec.SenderID(e.eventFields.SenderID)"
+]
+
+def eventV1_eventV1_SetUnsigned : List String := [
+  "func func(unsigned interface{}) (PDU, error)",
+  "var eventAsMap map[string]spec.RawJSON",
+  "var err error",
+  "if err = json.Unmarshal(e.eventJSON, &eventAsMap); err != nil {",
+  "return nil, err",
+  "}",
+  "unsignedJSON, err := json.Marshal(unsigned)",
+  "if err != nil {",
+  "return nil, err",
+  "}",
+  "eventAsMap[\"unsigned\"] = unsignedJSON",
+  "eventJSON, err := json.Marshal(eventAsMap)",
+  "if err != nil {",
+  "return nil, err",
+  "}",
+  "if eventJSON, err = EnforcedCanonicalJSON(eventJSON, e.roomVersion); err != nil {",
+  "return nil, err",
+  "}",
+  "result := *e",
+  "result.eventJSON = eventJSON",
+  "result.eventFields.Unsigned = unsignedJSON",
+  "return &result, nil"
+]
+
+def eventV1_eventV1_SetUnsignedField : List String := [
+  "func func(path string, value interface{}) error",
+  "path = \"unsigned.\" + path",
+  "eventJSON, err := sjson.SetBytes(e.eventJSON, path, value)",
+  "if err != nil {",
+  "return err",
+  "}",
+  "eventJSON = CanonicalJSONAssumeValid(eventJSON)",
+  "res := gjson.GetBytes(eventJSON, \"unsigned\")",
+  "e.eventFields.Unsigned = []byte(res.Raw)",
+  "e.eventJSON = eventJSON",
+  "return nil"
+]
+
+def eventV1_eventV1_Sign : List String := [
+  "func func(signingName string, keyID KeyID, privateKey ed25519.PrivateKey) PDU",
+  "eventJSON, err := signEvent(signingName, keyID, privateKey, e.eventJSON, e.roomVersion)",
+  "if err != nil {",
+  "panic(fmt.Errorf(\"gomatrixserverlib: invalid event %v (%q)\", err, string(e.eventJSON)))",
+  "}",
+  "if eventJSON, err = EnforcedCanonicalJSON(eventJSON, e.roomVersion); err != nil {",
+  "panic(fmt.Errorf(\"gomatrixserverlib: invalid event %v (%q)\", err, string(e.eventJSON)))",
+  "}",
+  "res := &e",
+  "(*res).eventJSON = eventJSON",
+  "return *res"
+]
+
+def eventV1_eventV1_StateKey : List String := [
+  "func func() *string",
+  "return e.eventFields.StateKey"
+]
+
+def eventV1_eventV1_StateKeyEquals : List String := [
+  "func func(s string) bool",
+  "if e.eventFields.StateKey == nil {",
+  "return false",
+  "}",
+  "return *e.eventFields.StateKey == s"
+]
+
+def eventV1_eventV1_StickyEndTime : List String := [
+  "func func(received time.Time) time.Time",
+  "return e.calculatedStickyEndTime(e.assumedStickyStartTime(received))"
+]
+
+def eventV1_eventV1_ToHeaderedJSON : List String := [
+  "func func() ([]byte, error)",
+  "var err error",
+  "eventJSON := e.JSON()",
+  "eventJSON, err = sjson.SetBytes(eventJSON, \"_room_version\", e.Version())",
+  "if err != nil {",
+  "return []byte{}, err",
+  "}",
+  "eventJSON, err = sjson.SetBytes(eventJSON, \"_event_id\", e.EventID())",
+  "if err != nil {",
+  "return []byte{}, err",
+  "}",
+  "return eventJSON, nil"
+]
+
+def eventV1_eventV1_Type : List String := [
+  "func func() string",
+  "return e.eventFields.Type"
+]
+
+def eventV1_eventV1_Unsigned : List String := [
+  "func func() []byte",
+  "return e.eventFields.Unsigned"
+]
+
+def eventV1_eventV1_Version : List String := [
+  "func func() RoomVersion",
+  "return e.roomVersion"
+]
+
+def eventV1_eventV1_assumedStickyStartTime : List String := [
+  "func func(received time.Time) time.Time",
+  "if e.OriginServerTS().Time().Before(received) {",
+  "return e.OriginServerTS().Time()",
+  "}",
+  "return received"
+]
+
+def eventV1_eventV1_calculatedStickyEndTime : List String := [
+  "func func(startTime time.Time) time.Time",
+  "durationMillis := e.StableSticky.DurationMillis",
+  "if durationMillis == 0 {",
+  "durationMillis = e.UnstableSticky.DurationMillis",
+  "}",
+  "if durationMillis == 0 {",
+  "return time.Time{}",
+  "}",
+  "if durationMillis > 3600000 {",
+  "durationMillis = 3600000",
+  "}",
+  "return startTime.Add(time.Duration(durationMillis) * time.Millisecond)"
+]
+
+def eventV2__CheckFields : List String := [
+  "func func(input PDU) error",
+  "if input.AuthEventIDs() == nil || input.PrevEventIDs() == nil {",
+  "return errors.New(\"gomatrixserverlib: auth events and prev events must not be nil\")",
+  "}",
+  "if l := len(input.JSON()); l > maxEventLength {",
+  "return EventValidationError{Code: EventValidationTooLarge, Message: fmt.Sprintf(\"gomatrixserverlib: event is too long, length %d bytes > maximum %d bytes\", l, maxEventLength)}",
+  "}",
+  "if l := utf8.RuneCountInString(input.Type()); l > maxIDLength {",
+  "return EventValidationError{Code: EventValidationTooLarge, Message: fmt.Sprintf(\"gomatrixserverlib: event type is too long, length %d bytes > maximum %d bytes\", l, maxIDLength)}",
+  "}",
+  "if input.StateKey() != nil {",
+  "if l := utf8.RuneCountInString(*input.StateKey()); l > maxIDLength {",
+  "return EventValidationError{Code: EventValidationTooLarge, Message: fmt.Sprintf(\"gomatrixserverlib: state key is too long, length %d bytes > maximum %d bytes\", l, maxIDLength)}",
+  "}",
+  "}",
+  "if l := utf8.RuneCountInString(string(input.SenderID())); l > maxIDLength {",
+  "return EventValidationError{Code: EventValidationTooLarge, Message: fmt.Sprintf(\"gomatrixserverlib: sender is too long, length %d > maximum %d\", l, maxIDLength)}",
+  "}",
+  "switch input.Version() {",
+  "case RoomVersionPseudoIDs:",
+  "default:",
+  "if _, err := domainFromID(string(input.SenderID())); err != nil {",
+  "return err",
+  "}",
+  "if id := string(input.SenderID()); id[0] != '@' {",
+  "return checkID(id, \"user\", '@')",
+  "}",
+  "}",
+  "_, persistable := lenientByteLimitRoomVersions[input.Version()]",
+  "if l := len(input.Type()); l > maxIDLength {",
+  "return EventValidationError{Code: EventValidationTooLarge, Message: fmt.Sprintf(\"gomatrixserverlib: event type is too long, length %d bytes > maximum %d bytes\", l, maxIDLength), Persistable: persistable}",
+  "}",
+  "if input.StateKey() != nil {",
+  "if l := len(*input.StateKey()); l > maxIDLength {",
+  "return EventValidationError{Code: EventValidationTooLarge, Message: fmt.Sprintf(\"gomatrixserverlib: state key is too long, length %d bytes > maximum %d bytes\", l, maxIDLength), Persistable: persistable}",
+  "}",
+  "}",
+  "if l := len(input.SenderID()); l > maxIDLength {",
+  "return EventValidationError{Code: EventValidationTooLarge, Message: fmt.Sprintf(\"gomatrixserverlib: user ID is too long, length %d bytes > maximum %d bytes\", l, maxIDLength), Persistable: true}",
+  "}",
+  "return nil"
+]
+
+def eventV2__newEventFromTrustedJSONV2 : List String := [
+  "func func(eventJSON []byte, redacted bool, roomVersion IRoomVersion) (PDU, error)",
+  "res := eventV2{}",
+  "if err := json.Unmarshal(eventJSON, &res); err != nil {",
+  "return nil, err",
+  "}",
+  "if err := checkRoomIDField(res.eventFields.RoomID); err != nil {",
+  "return nil, err",
+  "}",
+  "res.roomVersion = roomVersion.Version()",
+  "res.redacted = redacted",
+  "res.eventJSON = eventJSON",
+  "if err := res.populateEventID(roomVersion); err != nil {",
+  "return nil, err",
+  "}",
+  "return &res, nil"
+]
+
+def eventV2__newEventFromTrustedJSONWithEventIDV2 : List String := [
+  "func func(eventID string, eventJSON []byte, redacted bool, roomVersion IRoomVersion) (PDU, error)",
+  "res := &eventV2{}",
+  "if err := json.Unmarshal(eventJSON, res); err != nil {",
+  "return nil, err",
+  "}",
+  "if err := checkRoomIDField(res.eventFields.RoomID); err != nil {",
+  "return nil, err",
+  "}",
+  "res.roomVersion = roomVersion.Version()",
+  "res.eventJSON = eventJSON",
+  "res.EventIDRaw = eventID",
+  "res.redacted = redacted",
+  "return res, nil"
+]
+
+def eventV2__newEventFromUntrustedJSONV2 : List String := [
+  "func func(eventJSON []byte, roomVersion IRoomVersion) (PDU, error)",
+  "if r := gjson.GetBytes(eventJSON, \"_*\"); r.Exists() {",
+  "return nil, fmt.Errorf(\"gomatrixserverlib NewEventFromUntrustedJSON: found top-level '_' key, is this a headered event: %v\", string(eventJSON))",
+  "}",
+  "if err := roomVersion.CheckCanonicalJSON(eventJSON); err != nil {",
+  "return nil, BadJSONError{err}",
+  "}",
+  "res := &eventV2{}",
+  "var err error",
+  "for _, key := range []string{\"outlier\", \"destinations\", \"age_ts\", \"unsigned\", \"event_id\"} {",
+  "if eventJSON, err = sjson.DeleteBytes(eventJSON, key); err != nil {",
+  "return nil, err",
+  "}",
+  "}",
+  "if err = json.Unmarshal(eventJSON, res); err != nil {",
+  "return nil, err",
+  "}",
+  "res.EventIDRaw = \"\"",
+  "if err := checkRoomIDField(res.eventFields.RoomID); err != nil {",
+  "return nil, err",
+  "}",
+  "res.roomVersion = roomVersion.Version()",
+  "eventJSON = CanonicalJSONAssumeValid(eventJSON)",
+  "if l := len(eventJSON); l > maxEventLength {",
+  "return nil, EventValidationError{Code: EventValidationTooLarge, Message: fmt.Sprintf(\"gomatrixserverlib: event is too long, length %d bytes > maximum %d bytes\", l, maxEventLength)}",
+  "}",
+  "res.eventJSON = eventJSON",
+  "if err = checkEventContentHash(eventJSON); err != nil {",
+  "res.redacted = true",
+  "var redactedJSON []byte",
+  "if redactedJSON, err = roomVersion.RedactEventJSON(eventJSON); err != nil {",
+  "return nil, err",
+  "}",
+  "if redactedJSON, err = sjson.DeleteBytes(redactedJSON, \"event_id\"); err != nil {",
+  "return nil, err",
+  "}",
+  "redactedJSON = CanonicalJSONAssumeValid(redactedJSON)",
+  "if !bytes.Equal(redactedJSON, eventJSON) {",
+  "result, err := roomVersion.NewEventFromTrustedJSON(redactedJSON, true)",
+  "if err != nil {",
+  "return nil, err",
+  "}",
+  "err = CheckFields(result)",
+  "return result, err",
+  "}",
+  "}",
+  "if err = res.populateEventID(roomVersion); err != nil {",
+  "return nil, err",
+  "}",
+  "err = CheckFields(res)",
+  "return res, err"
+]
+
+def eventV2_eventV2_AuthEventIDs : List String := [
+  "func func() []string",
+  "return e.AuthEvents"
+]
+
+def eventV2_eventV2_EventID : List String := [
+  "func func() string",
+  "if e.EventIDRaw != \"\" {",
+  "return e.EventIDRaw",
+  "}",
+  "ref, err := referenceOfEvent(e.eventJSON, e.roomVersion)",
+  "if err != nil {",
+  "panic(fmt.Errorf(\"failed to generate reference of event: %w\", err))",
+  "}",
+  "return ref.EventID"
+]
+
+def eventV2_eventV2_MarshalJSON : List String := [
+  "func func() ([]byte, error)",
+  "if e.eventJSON == nil {",
+  "return nil, fmt.Errorf(\"gomatrixserverlib: cannot serialise uninitialised Event\")",
+  "}",
+  "return e.eventJSON, nil"
+]
+
+def eventV2_eventV2_PrevEventIDs : List String := [
+  "func func() []string",
+  "return e.PrevEvents"
+]
+
+def eventV2_eventV2_Redact : List String := [
+  "func func()",
+  "if e.redacted {",
+  "return",
+  "}",
+  "verImpl, err := GetRoomVersion(e.roomVersion)",
+  "if err != nil {",
+  "panic(fmt.Errorf(\"gomatrixserverlib: invalid event %v\", err))",
+  "}",
+  "eventJSON, err := verImpl.RedactEventJSON(e.eventJSON)",
+  "if err != nil {",
+  "panic(fmt.Errorf(\"gomatrixserverlib: invalid event %v\", err))",
+  "}",
+  "if eventJSON, err = EnforcedCanonicalJSON(eventJSON, e.roomVersion); err != nil {",
+  "panic(fmt.Errorf(\"gomatrixserverlib: invalid event %v\", err))",
+  "}",
+  "var res eventV2",
+  "err = json.Unmarshal(eventJSON, &res)",
+  "if err != nil {",
+  "panic(fmt.Errorf(\"gomatrixserverlib: Redact failed %v\", err))",
+  "}",
+  "res.redacted = true",
+  "res.eventJSON = eventJSON",
+  "res.roomVersion = e.roomVersion",
+  "if res.EventIDRaw == \"\" {",
+  "res.EventIDRaw = e.EventIDRaw",
+  "}",
+  "*e = res"
+]
+
+def eventV2_eventV2_SenderID : List String := [
+  "func func() spec.SenderID",
+  "return spec.SenderID(e.eventFields.SenderID)"
+]
+
+def eventV2_eventV2_SetUnsigned : List String := [
+  "func func(unsigned interface{}) (PDU, error)",
+  "var eventAsMap map[string]spec.RawJSON",
+  "var err error",
+  "if err = json.Unmarshal(e.eventJSON, &eventAsMap); err != nil {",
+  "return nil, err",
+  "}",
+  "unsignedJSON, err := json.Marshal(unsigned)",
+  "if err != nil {",
+  "return nil, err",
+  "}",
+  "eventAsMap[\"unsigned\"] = unsignedJSON",
+  "eventJSON, err := json.Marshal(eventAsMap)",
+  "if err != nil {",
+  "return nil, err",
+  "}",
+  "if eventJSON, err = EnforcedCanonicalJSON(eventJSON, e.roomVersion); err != nil {",
+  "return nil, err",
+  "}",
+  "result := *e",
+  "result.eventJSON = eventJSON",
+  "result.eventFields.Unsigned = unsignedJSON",
+  "return &result, nil"
+]
+
+def eventV2_eventV2_Sign : List String := [
+  "func func(signingName string, keyID KeyID, privateKey ed25519.PrivateKey) PDU",
+  "eventJSON, err := signEvent(signingName, keyID, privateKey, e.eventJSON, e.roomVersion)",
+  "if err != nil {",
+  "panic(fmt.Errorf(\"gomatrixserverlib: invalid event %v (%q)\", err, string(e.eventJSON)))",
+  "}",
+  "if eventJSON, err = EnforcedCanonicalJSON(eventJSON, e.roomVersion); err != nil {",
+  "panic(fmt.Errorf(\"gomatrixserverlib: invalid event %v (%q)\", err, string(e.eventJSON)))",
+  "}",
+  "res := &e",
+  "(*res).eventJSON = eventJSON",
+  "return *res"
+]
+
+def eventV2_eventV2_populateEventID : List String := [
+  "func func(verImpl IRoomVersion) error",
+  "if e.EventIDRaw != \"\" {",
+  "return nil",
+  "}",
+  "ref, err := referenceOfEventForVersion(e.eventJSON, verImpl)",
+  "if err != nil {",
+  "return fmt.Errorf(\"failed to generate reference of event: %w\", err)",
+  "}",
+  "e.EventIDRaw = ref.EventID",
+  "return nil"
+]
+
+def eventV3__checkRoomID : List String := [
+  "func func(res *eventV3) error",
+  "isCreateEvent := res.Type() == spec.MRoomCreate && res.StateKeyEquals(\"\")",
+  "if !isCreateEvent && !strings.HasPrefix(res.eventFields.RoomID, \"!\") {",
+  "return fmt.Errorf(\"gomatrixserverlib: room_id must start with !\")",
+  "}",
+  "if !isCreateEvent {",
+  "if _, err := spec.NewRoomID(res.eventFields.RoomID); err != nil {",
+  "return fmt.Errorf(\"gomatrixserverlib: invalid room ID %q: %w\", res.eventFields.RoomID, err)",
+  "}",
+  "}",
+  "return nil"
+]
+
+def eventV3__newEventFromTrustedJSONV3 : List String := [
+  "func func(eventJSON []byte, redacted bool, roomVersion IRoomVersion) (PDU, error)",
+  "res := eventV3{}",
+  "if err := json.Unmarshal(eventJSON, &res); err != nil {",
+  "return nil, err",
+  "}",
+  "if err := checkRoomID(&res); err != nil {",
+  "return nil, err",
+  "}",
+  "res.roomVersion = roomVersion.Version()",
+  "res.redacted = redacted",
+  "res.eventJSON = eventJSON",
+  "if err := res.populateEventID(roomVersion); err != nil {",
+  "return nil, err",
+  "}",
+  "return &res, nil"
+]
+
+def eventV3__newEventFromTrustedJSONWithEventIDV3 : List String := [
+  "func func(eventID string, eventJSON []byte, redacted bool, roomVersion IRoomVersion) (PDU, error)",
+  "res := &eventV3{}",
+  "if err := json.Unmarshal(eventJSON, res); err != nil {",
+  "return nil, err",
+  "}",
+  "if err := checkRoomID(res); err != nil {",
+  "return nil, err",
+  "}",
+  "res.roomVersion = roomVersion.Version()",
+  "res.eventJSON = eventJSON",
+  "res.EventIDRaw = eventID",
+  "res.redacted = redacted",
+  "return res, nil"
+]
+
+def eventV3__newEventFromUntrustedJSONV3 : List String := [
+  "func func(eventJSON []byte, roomVersion IRoomVersion) (PDU, error)",
+  "if r := gjson.GetBytes(eventJSON, \"_*\"); r.Exists() {",
+  "return nil, fmt.Errorf(\"gomatrixserverlib NewEventFromUntrustedJSON: found top-level '_' key, is this a headered event: %v\", string(eventJSON))",
+  "}",
+  "if err := roomVersion.CheckCanonicalJSON(eventJSON); err != nil {",
+  "return nil, BadJSONError{err}",
+  "}",
+  "res := &eventV3{}",
+  "var err error",
+  "for _, key := range []string{\"outlier\", \"destinations\", \"age_ts\", \"unsigned\", \"event_id\"} {",
+  "if eventJSON, err = sjson.DeleteBytes(eventJSON, key); err != nil {",
+  "return nil, err",
+  "}",
+  "}",
+  "if err = json.Unmarshal(eventJSON, res); err != nil {",
+  "return nil, err",
+  "}",
+  "res.EventIDRaw = \"\"",
+  "if err := checkRoomID(res); err != nil {",
+  "return nil, err",
+  "}",
+  "res.roomVersion = roomVersion.Version()",
+  "eventJSON = CanonicalJSONAssumeValid(eventJSON)",
+  "if l := len(eventJSON); l > maxEventLength {",
+  "return nil, EventValidationError{Code: EventValidationTooLarge, Message: fmt.Sprintf(\"gomatrixserverlib: event is too long, length %d bytes > maximum %d bytes\", l, maxEventLength)}",
+  "}",
+  "res.eventJSON = eventJSON",
+  "if err = checkEventContentHash(eventJSON); err != nil {",
+  "res.redacted = true",
+  "var redactedJSON []byte",
+  "if redactedJSON, err = roomVersion.RedactEventJSON(eventJSON); err != nil {",
+  "return nil, err",
+  "}",
+  "if redactedJSON, err = sjson.DeleteBytes(redactedJSON, \"event_id\"); err != nil {",
+  "return nil, err",
+  "}",
+  "redactedJSON = CanonicalJSONAssumeValid(redactedJSON)",
+  "if !bytes.Equal(redactedJSON, eventJSON) {",
+  "result, err := roomVersion.NewEventFromTrustedJSON(redactedJSON, true)",
+  "if err != nil {",
+  "return nil, err",
+  "}",
+  "err = CheckFields(result)",
+  "return result, err",
+  "}",
+  "}",
+  "if err = res.populateEventID(roomVersion); err != nil {",
+  "return nil, err",
+  "}",
+  "err = CheckFields(res)",
+  "return res, err"
+]
+
+def eventV3_eventV3_AuthEventIDs : List String := [
+  "func func() []string",
+  "isCreateEvent := e.Type() == spec.MRoomCreate && e.StateKeyEquals(\"\")",
+  "if isCreateEvent {",
+  "return []string{}",
+  "}",
+  "createEventID := fmt.Sprintf(\"$%s\", e.eventFields.RoomID[1:])",
+  "if len(e.AuthEvents) > 0 {",
+  "return append([]string{createEventID}, e.AuthEvents...)",
+  "}",
+  "return []string{createEventID}"
+]
+
+def eventV3_eventV3_RoomID : List String := [
+  "func func() spec.RoomID",
+  "roomIDStr := e.eventFields.RoomID",
+  "isCreateEvent := e.Type() == spec.MRoomCreate && e.StateKeyEquals(\"\")",
+  "if isCreateEvent {",
+  "roomIDStr = fmt.Sprintf(\"!%s\", e.EventID()[1:])",
+  "}",
+  "roomID, err := spec.NewRoomID(roomIDStr)",
+  "if err != nil {",
+  "panic(fmt.Errorf(\"RoomID is invalid: %w\", err))",
+  "}",
+  "return *roomID"
+]
+
+def event_EventValidationError_Error : List String := [
+  "func func() string",
+  "return e.Message"
+]
+
+def event__SplitID : List String := [
+  "func func(sigil byte, id string) (local string, domain spec.ServerName, err error)",
+  "if len(id) == 0 || id[0] != sigil {",
+  "return \"\", \"\", fmt.Errorf(\"gomatrixserverlib: invalid ID %q doesn't start with %q\", id, sigil)",
+  "}",
+  "parts := strings.SplitN(id, \":\", 2)",
+  "if len(parts) != 2 {",
+  "return \"\", \"\", fmt.Errorf(\"gomatrixserverlib: invalid ID %q missing ':'\", id)",
+  "}",
+  "return parts[0][1:], spec.ServerName(parts[1]), nil"
+]
+
+def event__checkID : List String := [
+  "func func(id, kind string, sigil byte) (err error)",
+  "if _, err = domainFromID(id); err != nil {",
+  "return",
+  "}",
+  "if id[0] != sigil {",
+  "err = fmt.Errorf(\"gomatrixserverlib: invalid %s ID, wanted first byte to be '%c' got '%c'\", kind, sigil, id[0])",
+  "return",
+  "}",
+  "if l := utf8.RuneCountInString(id); l > maxIDLength {",
+  "err = EventValidationError{Code: EventValidationTooLarge, Message: fmt.Sprintf(\"gomatrixserverlib: %s ID is too long, length %d > maximum %d\", kind, l, maxIDLength)}",
+  "return",
+  "}",
+  "if l := len(id); l > maxIDLength {",
+  "err = EventValidationError{Code: EventValidationTooLarge, Message: fmt.Sprintf(\"gomatrixserverlib: %s ID is too long, length %d bytes > maximum %d bytes\", kind, l, maxIDLength), Persistable: true}",
+  "return",
+  "}",
+  "return"
+]
+
+def event__checkRoomIDField : List String := [
+  "func func(id string) error",
+  "if err := checkID(id, \"room\", '!'); err != nil {",
+  "if verr, ok := err.(EventValidationError); ok && verr.Persistable {",
+  "verr.Persistable = false",
+  "return verr",
+  "}",
+  "return err",
+  "}",
+  "if _, err := spec.NewRoomID(id); err != nil {",
+  "return fmt.Errorf(\"gomatrixserverlib: invalid room ID %q: %w\", id, err)",
+  "}",
+  "return nil"
+]
+
+def eventauth_AuthEvents_AddEvent : List String := [
+  "func func(event PDU) error",
+  "if event.StateKey() == nil {",
+  "return fmt.Errorf(\"AddEvent: event %q does not have a state key\", event.Type())",
+  "}",
+  "a.roomIDs[event.RoomID().String()] = struct{}{}",
+  "a.events[StateKeyTuple{event.Type(), *event.StateKey()}] = event",
+  "return nil"
+]
+
+def eventauth_AuthEvents_Clear : List String := [
+  "func func()",
+  "for k := range a.events {",
+  "delete(a.events, k)",
+  "}"
+]
+
+def eventauth_AuthEvents_Create : List String := [
+  "func func() (PDU, error)",
+  "return a.events[StateKeyTuple{spec.MRoomCreate, \"\"}], nil"
+]
+
+def eventauth_AuthEvents_JoinRules : List String := [
+  "func func() (PDU, error)",
+  "return a.events[StateKeyTuple{spec.MRoomJoinRules, \"\"}], nil"
+]
+
+def eventauth_AuthEvents_Member : List String := [
+  "func func(stateKey spec.SenderID) (PDU, error)",
+  "return a.events[StateKeyTuple{spec.MRoomMember, string(stateKey)}], nil"
+]
+
+def eventauth_AuthEvents_PowerLevels : List String := [
+  "func func() (PDU, error)",
+  "return a.events[StateKeyTuple{spec.MRoomPowerLevels, \"\"}], nil"
+]
+
+def eventauth_AuthEvents_ThirdPartyInvite : List String := [
+  "func func(stateKey string) (PDU, error)",
+  "return a.events[StateKeyTuple{spec.MRoomThirdPartyInvite, stateKey}], nil"
+]
+
+def eventauth_AuthEvents_Valid : List String := [
+  "func func() bool",
+  "return len(a.roomIDs) <= 1"
+]
+
+def eventauth_NotAllowed_Error : List String := [
+  "func func() string",
+  "return \"eventauth: \" + a.Message"
+]
+
+def eventauth_StateNeeded_AuthEventReferences : List String := [
+  "func func(provider AuthEventProvider) (refs []string, err error)",
+  "refs = make([]string, 0, 5)",
+  "var e PDU",
+  "if s.Create {",
+  "if e, err = provider.Create(); err != nil {",
+  "return",
+  "} else if e != nil {",
+  "refs = append(refs, e.EventID())",
+  "}",
+  "}",
+  "if s.JoinRules {",
+  "if e, err = provider.JoinRules(); err != nil {",
+  "return",
+  "} else if e != nil {",
+  "refs = append(refs, e.EventID())",
+  "}",
+  "}",
+  "if s.PowerLevels {",
+  "if e, err = provider.PowerLevels(); err != nil {",
+  "return",
+  "} else if e != nil {",
+  "refs = append(refs, e.EventID())",
+  "}",
+  "}",
+  "for _, userID := range s.Member {",
+  "if e, err = provider.Member(spec.SenderID(userID)); err != nil {",
+  "return",
+  "} else if e != nil {",
+  "refs = append(refs, e.EventID())",
+  "}",
+  "}",
+  "for _, token := range s.ThirdPartyInvite {",
+  "if e, err = provider.ThirdPartyInvite(token); err != nil {",
+  "return",
+  "} else if e != nil {",
+  "refs = append(refs, e.EventID())",
+  "}",
+  "}",
+  "return"
+]
+
+def eventauth_StateNeeded_Tuples : List String := [
+  "func func() (res []StateKeyTuple)",
+  "if s.Create {",
+  "res = append(res, StateKeyTuple{spec.MRoomCreate, \"\"})",
+  "}",
+  "if s.JoinRules {",
+  "res = append(res, StateKeyTuple{spec.MRoomJoinRules, \"\"})",
+  "}",
+  "if s.PowerLevels {",
+  "res = append(res, StateKeyTuple{spec.MRoomPowerLevels, \"\"})",
+  "}",
+  "for _, senderID := range s.Member {",
+  "res = append(res, StateKeyTuple{spec.MRoomMember, senderID})",
+  "}",
+  "for _, token := range s.ThirdPartyInvite {",
+  "res = append(res, StateKeyTuple{spec.MRoomThirdPartyInvite, token})",
+  "}",
+  "return"
+]
+
+def eventauth__Allowed : List String := [
+  "func func(event PDU, authEvents AuthEventProvider, userIDQuerier spec.UserIDForSender) error",
+  "if !authEvents.Valid() {",
+  "return errorf(\"authEvents contains events from different rooms\")",
+  "}",
+  "return newAllowerContext(authEvents, userIDQuerier, event.RoomID()).allowed(event)"
+]
+
+def eventauth__NewAuthEvents : List String := [
+  "func func(events []PDU) (*AuthEvents, error)",
+  "a := AuthEvents{events: make(map[StateKeyTuple]PDU, len(events)), roomIDs: make(map[string]struct{})}",
+  "for _, e := range events {",
+  "if err := a.AddEvent(e); err != nil {",
+  "return nil, err",
+  "}",
+  "}",
+  "return &a, nil"
+]
+
+def eventauth__StateNeededForAuth : List String := [
+  "func func(events []PDU) (result StateNeeded)",
+  "for _, event := range events {",
+  "var content *membershipContent",
+  "if event.Type() == spec.MRoomMember {",
+  "_ = json.Unmarshal(event.Content(), &content)",
+  "}",
+  "_ = accumulateStateNeeded(&result, event.Type(), event.SenderID(), event.StateKey(), content)",
+  "}",
+  "result.Member = util.UniqueStrings(result.Member)",
+  "result.ThirdPartyInvite = util.UniqueStrings(result.ThirdPartyInvite)",
+  "return"
+]
+
+def eventauth__StateNeededForProtoEvent : List String := [
+  "func func(protoEvent *ProtoEvent) (result StateNeeded, err error)",
+  "var content *membershipContent",
+  "if protoEvent.Type == spec.MRoomMember {",
+  "if err = json.Unmarshal(protoEvent.Content, &content); err != nil {",
+  "err = errorf(\"unparseable member event content: %s\", err.Error())",
+  "return",
+  "}",
+  "}",
+  "err = accumulateStateNeeded(&result, protoEvent.Type, spec.SenderID(protoEvent.SenderID), protoEvent.StateKey, content)",
+  "result.Member = util.UniqueStrings(result.Member)",
+  "result.ThirdPartyInvite = util.UniqueStrings(result.ThirdPartyInvite)",
+  "return"
+]
+
+def eventauth__accumulateStateNeeded : List String := [
+  "func func(result *StateNeeded, eventType string, sender spec.SenderID, stateKey *string, content *membershipContent) (err error)",
+  "switch eventType {",
+  "case spec.MRoomCreate:",
+  "case spec.MRoomAliases:",
+  "result.Create = true",
+  "case spec.MRoomMember:",
+  "if content == nil {",
+  "err = errorf(\"missing memberContent for m.room.member event\")",
+  "return",
+  "}",
+  "result.Create = true",
+  "result.PowerLevels = true",
+  "result.Member = append(result.Member, string(sender))",
+  "if stateKey != nil {",
+  "result.Member = append(result.Member, *stateKey)",
+  "}",
+  "if content.Membership == spec.Join || content.Membership == spec.Knock || content.Membership == spec.Invite {",
+  "result.JoinRules = true",
+  "}",
+  "if content.AuthorizedVia != \"\" {",
+  "result.Member = append(result.Member, content.AuthorizedVia)",
+  "}",
+  "if content.ThirdPartyInvite != nil {",
+  "token, tokErr := thirdPartyInviteToken(content.ThirdPartyInvite)",
+  "if tokErr != nil {",
+  "err = errorf(\"could not get third-party token: %s\", tokErr)",
+  "return",
+  "}",
+  "result.ThirdPartyInvite = append(result.ThirdPartyInvite, token)",
+  "}",
+  "default:",
+  "result.Create = true",
+  "result.PowerLevels = true",
+  "result.Member = append(result.Member, string(sender))",
+  "}",
+  "return"
+]
+
+def eventauth__allowRestrictedJoins : List String := [
+  "func func() error",
+  "return nil"
+]
+
+def eventauth__checkEventLevels : List String := [
+  "func func(senderLevel int64, oldPowerLevels, newPowerLevels PowerLevelContent) error",
+  "type levelPair struct { old int64 new int64 }",
+  "levelChecks := []levelPair{{oldPowerLevels.Ban, newPowerLevels.Ban}, {oldPowerLevels.Invite, newPowerLevels.Invite}, {oldPowerLevels.Kick, newPowerLevels.Kick}, {oldPowerLevels.Redact, newPowerLevels.Redact}, {oldPowerLevels.StateDefault, newPowerLevels.StateDefault}, {oldPowerLevels.EventsDefault, newPowerLevels.EventsDefault}, {oldPowerLevels.UsersDefault, newPowerLevels.UsersDefault}}",
+  "const ( isStateEvent = false )",
+  "for eventType := range newPowerLevels.Events {",
+  "levelChecks = append(levelChecks, levelPair{oldPowerLevels.EventLevel(eventType, isStateEvent), newPowerLevels.EventLevel(eventType, isStateEvent)})",
+  "}",
+  "for eventType := range oldPowerLevels.Events {",
+  "levelChecks = append(levelChecks, levelPair{oldPowerLevels.EventLevel(eventType, isStateEvent), newPowerLevels.EventLevel(eventType, isStateEvent)})",
+  "}",
+  "for _, level := range levelChecks {",
+  "if level.old == level.new {",
+  "continue",
+  "}",
+  "if senderLevel < level.new {",
+  "return errorf(\"sender with level %d is not allowed to change level from %d to %d\"+\" because the new level is above the level of the sender\", senderLevel, level.old, level.new)",
+  "}",
+  "if senderLevel < level.old {",
+  "return errorf(\"sender with level %d is not allowed to change level from %d to %d\"+\" because the current level is above the level of the sender\", senderLevel, level.old, level.new)",
+  "}",
+  "}",
+  "return nil"
+]
+
+def eventauth__checkKnocking : List String := [
+  "func func(roomVer, sender, target, joinRule, prevMembership string) error",
+  "supported := joinRule == spec.Knock || joinRule == spec.KnockRestricted",
+  "if !supported {",
+  "return errorf(\"%q is not allowed to change the membership of %q from %q as room version %q does not support knocking on rooms with join rule %q\", sender, target, prevMembership, roomVer, joinRule)",
+  "}",
+  "switch prevMembership {",
+  "case spec.Join, spec.Invite, spec.Ban:",
+  "return errorf(\"%q is not allowed to change the membership of %q from %q as sender is already joined/invited/banned\", sender, target, prevMembership)",
+  "}",
+  "return nil"
+]
+
+def eventauth__checkPowerLevelEventV1 : List String := [
+  "func func(sender string, createEvent PDU, oldPowerLevels, newPowerLevels PowerLevelContent) error",
+  "return nil"
+]
+
+def eventauth__checkPowerLevelEventV2 : List String := [
+  "func func(sender string, createEvent PDU, oldPowerLevels, newPowerLevels PowerLevelContent) error",
+  "senderLevel := oldPowerLevels.UserLevel(spec.SenderID(sender))",
+  "type levelPair struct { old int64 new int64 userID string }",
+  "notificationLevelChecks := []levelPair{}",
+  "for notification := range newPowerLevels.Notifications {",
+  "notificationLevelChecks = append(notificationLevelChecks, levelPair{oldPowerLevels.NotificationLevel(notification), newPowerLevels.NotificationLevel(notification), notification})",
+  "}",
+  "for notification := range oldPowerLevels.Notifications {",
+  "notificationLevelChecks = append(notificationLevelChecks, levelPair{oldPowerLevels.NotificationLevel(notification), newPowerLevels.NotificationLevel(notification), notification})",
+  "}",
+  "for _, level := range notificationLevelChecks {",
+  "if level.old == level.new {",
+  "continue",
+  "}",
+  "if senderLevel < level.new {",
+  "return errorf(\"sender with level %d is not allowed change notification level from %d to %d\"+\" because the new level is above the level of the sender\", senderLevel, level.old, level.new)",
+  "}",
+  "if senderLevel <= level.old {",
+  "return errorf(\"sender with level %d is not allowed to change notification level from %d to %d\"+\" because the old level is equal to or above the level of the sender\", senderLevel, level.old, level.new)",
+  "}",
+  "}",
+  "return nil"
+]
+
+def eventauth__checkPowerLevelEventV3 : List String := [
+  "func func(sender string, createEvent PDU, oldPowerLevels, newPowerLevels PowerLevelContent) error",
+  "if err := checkPowerLevelEventV2(sender, createEvent, oldPowerLevels, newPowerLevels); err != nil {",
+  "return err",
+  "}",
+  "var content CreateContent",
+  "if err := json.Unmarshal(createEvent.Content(), &content); err != nil {",
+  "return errorf(\"checkPowerLevelEventV3 unparseable create event content: %s\", err.Error())",
+  "}",
+  "creators := []string{string(createEvent.SenderID())}",
+  "creators = append(creators, content.AdditionalCreators...)",
+  "for userID := range newPowerLevels.Users {",
+  "if slices.Contains(creators, userID) {",
+  "return &EventValidationError{Code: 400, Message: fmt.Sprintf(\"new power levels event must not contain creator '%s'\", userID)}",
+  "}",
+  "}",
+  "return nil"
+]
+
+def eventauth__checkUserLevels : List String := [
+  "func func(senderLevel int64, senderID spec.SenderID, oldPowerLevels, newPowerLevels PowerLevelContent) error",
+  "type levelPair struct { old int64 new int64 }",
+  "userLevelChecks := map[spec.SenderID]levelPair{}",
+  "for userSenderID := range newPowerLevels.Users {",
+  "userLevelChecks[spec.SenderID(userSenderID)] = levelPair{old: oldPowerLevels.UserLevel(spec.SenderID(userSenderID)), new: newPowerLevels.UserLevel(spec.SenderID(userSenderID))}",
+  "}",
+  "for userSenderID := range oldPowerLevels.Users {",
+  "userLevelChecks[spec.SenderID(userSenderID)] = levelPair{old: oldPowerLevels.UserLevel(spec.SenderID(userSenderID)), new: newPowerLevels.UserLevel(spec.SenderID(userSenderID))}",
+  "}",
+  "for userSenderID, level := range userLevelChecks {",
+  "if level.old == level.new {",
+  "continue",
+  "}",
+  "if senderLevel < level.new {",
+  "return errorf(\"sender %q with level %d is not allowed change user %q level from %d to %d\"+\" because the new level is above the level of the sender\", senderID, senderLevel, userSenderID, level.old, level.new)",
+  "}",
+  "if userSenderID == senderID {",
+  "continue",
+  "}",
+  "if senderLevel <= level.old {",
+  "return errorf(\"sender %q with level %d is not allowed to change user %q level from %d to %d\"+\" because the old level is equal to or above the level of the sender\", senderID, senderLevel, userSenderID, level.old, level.new)",
+  "}",
+  "}",
+  "return nil"
+]
+
+def eventauth__disallowKnocking : List String := [
+  "func func(roomVer, sender, target, joinRule, prevMembership string) error",
+  "if sender == target {",
+  "return errorf(\"%q is not allowed to change their membership from %q as room version %q does not support knocking on rooms with join rule %q\", sender, prevMembership, roomVer, joinRule)",
+  "}",
+  "return errorf(\"%q is not allowed to change the membership of %q from %q as room version %q does not support knocking on rooms with join rule %q\", sender, target, prevMembership, roomVer, joinRule)"
+]
+
+def eventauth__disallowRestrictedJoins : List String := [
+  "func func() error",
+  "return errorf(\"restricted joins are not supported in this room version\")"
+]
+
+def eventauth__errorf : List String := [
+  "func func(message string, args ...interface{}) error",
+  "return &NotAllowed{Message: fmt.Sprintf(message, args...)}"
+]
+
+def eventauth__newAllowerContext : List String := [
+  "func func(provider AuthEventProvider, userIDQuerier spec.UserIDForSender, roomID spec.RoomID) *allowerContext",
+  "a := &allowerContext{userIDQuerier: userIDQuerier, roomID: roomID}",
+  "a.update(provider)",
+  "return a"
+]
+
+def eventauth__thirdPartyInviteToken : List String := [
+  "func func(thirdPartyInvite *MemberThirdPartyInvite) (string, error)",
+  "if thirdPartyInvite.Signed.Token == \"\" {",
+  "return \"\", fmt.Errorf(\"missing 'third_party_invite.signed.token' JSON key\")",
+  "}",
+  "return thirdPartyInvite.Signed.Token, nil"
+]
+
+def eventauth_allowerContext_aliasEventAllowed : List String := [
+  "func func(event PDU) error",
+  "sender, err := a.userIDQuerier(a.roomID, event.SenderID())",
+  "if err != nil {",
+  "return err",
+  "}",
+  "if event.RoomID().String() != a.create.roomID {",
+  "return errorf(\"create event has different roomID: %q (%s) != %q (%s)\", event.RoomID().String(), event.EventID(), a.create.roomID, a.create.eventID)",
+  "}",
+  "if err := a.create.DomainAllowed(string(sender.Domain())); err != nil {",
+  "return err",
+  "}",
+  "if event.StateKey() == nil {",
+  "return errorf(\"alias event must be a state event\")",
+  "}",
+  "switch event.Version() {",
+  "case RoomVersionPseudoIDs:",
+  "if !event.StateKeyEquals(string(event.SenderID())) {",
+  "return errorf(\"alias state_key does not match sender domain, %q != %q\", event.SenderID(), *event.StateKey())",
+  "}",
+  "default:",
+  "if !event.StateKeyEquals(string(sender.Domain())) {",
+  "return errorf(\"alias state_key does not match sender domain, %q != %q\", sender.Domain(), *event.StateKey())",
+  "}",
+  "}",
+  "return nil"
+]
+
+def eventauth_allowerContext_allowed : List String := [
+  "func func(event PDU) error",
+  "switch event.Type() {",
+  "case spec.MRoomCreate:",
+  "return a.createEventAllowed(event)",
+  "case spec.MRoomAliases:",
+  "return a.aliasEventAllowed(event)",
+  "case spec.MRoomMember:",
+  "return a.memberEventAllowed(event)",
+  "case spec.MRoomPowerLevels:",
+  "return a.powerLevelsEventAllowed(event)",
+  "case spec.MRoomRedaction:",
+  "return a.redactEventAllowed(event)",
+  "default:",
+  "return a.defaultEventAllowed(event)",
+  "}"
+]
+
+def eventauth_allowerContext_createEventAllowed : List String := [
+  "func func(event PDU) error",
+  "if !event.StateKeyEquals(\"\") {",
+  "return errorf(\"create event state key is not empty: %v\", event.StateKey())",
+  "}",
+  "if len(event.PrevEventIDs()) > 0 {",
+  "return errorf(\"create event must be the first event in the room: found %d prev_events\", len(event.PrevEventIDs()))",
+  "}",
+  "sender, err := a.userIDQuerier(a.roomID, event.SenderID())",
+  "if err != nil {",
+  "return err",
+  "}",
+  "verImpl, err := GetRoomVersion(event.Version())",
+  "if err != nil {",
+  "return nil",
+  "}",
+  "if err = verImpl.CheckCreateEvent(event, *sender, KnownRoomVersion); err != nil {",
+  "return err",
+  "}",
+  "return nil"
+]
+
+def eventauth_allowerContext_defaultEventAllowed : List String := [
+  "func func(event PDU) error",
+  "allower, err := a.newEventAllower(event.SenderID())",
+  "if err != nil {",
+  "return err",
+  "}",
+  "return allower.commonChecks(event)"
+]
+
+def eventauth_allowerContext_memberEventAllowed : List String := [
+  "func func(event PDU) error",
+  "allower, err := a.newMembershipAllower(a.provider, event)",
+  "if err != nil {",
+  "return err",
+  "}",
+  "return allower.membershipAllowed(event)"
+]
+
+def eventauth_allowerContext_newEventAllower : List String := [
+  "func func(senderID spec.SenderID) (e eventAllower, err error)",
+  "e.allowerContext = a",
+  "if e.member, err = NewMemberContentFromAuthEvents(a.provider, senderID); err != nil {",
+  "return",
+  "}",
+  "return"
+]
+
+def eventauth_allowerContext_newMembershipAllower : List String := [
+  "func func(authEvents AuthEventProvider, event PDU) (m membershipAllower, err error)",
+  "m.allowerContext = a",
+  "m.joinRule = a.joinRule",
+  "m.roomVersionImpl, err = GetRoomVersion(event.Version())",
+  "if err != nil {",
+  "return",
+  "}",
+  "stateKey := event.StateKey()",
+  "if stateKey == nil {",
+  "err = errorf(\"m.room.member must be a state event\")",
+  "return",
+  "}",
+  "m.targetID = *stateKey",
+  "m.senderID = string(event.SenderID())",
+  "if m.newMember, err = NewMemberContentFromEvent(event); err != nil {",
+  "return",
+  "}",
+  "if m.oldMember, err = NewMemberContentFromAuthEvents(authEvents, spec.SenderID(m.targetID)); err != nil {",
+  "return",
+  "}",
+  "if m.senderMember, err = NewMemberContentFromAuthEvents(authEvents, spec.SenderID(m.senderID)); err != nil {",
+  "return",
+  "}",
+  "if m.newMember.ThirdPartyInvite != nil && m.newMember.Membership == spec.Invite {",
+  "var token string",
+  "if token, err = thirdPartyInviteToken(m.newMember.ThirdPartyInvite); err != nil {",
+  "err = errorf(\"could not get third-party token: %s\", err)",
+  "return",
+  "}",
+  "if m.thirdPartyInvite, err = NewThirdPartyInviteContentFromAuthEvents(authEvents, token); err != nil {",
+  "return",
+  "}",
+  "}",
+  "return"
+]
+
+def eventauth_allowerContext_powerLevelsEventAllowed : List String := [
+  "func func(event PDU) error",
+  "allower, err := a.newEventAllower(event.SenderID())",
+  "if err != nil {",
+  "return err",
+  "}",
+  "if err = allower.commonChecks(event); err != nil {",
+  "return err",
+  "}",
+  "newPowerLevels, err := NewPowerLevelContentFromEvent(event)",
+  "if err != nil {",
+  "return err",
+  "}",
+  "for senderID := range newPowerLevels.Users {",
+  "sender, err := a.userIDQuerier(a.roomID, spec.SenderID(senderID))",
+  "if err != nil {",
+  "return err",
+  "}",
+  "if sender == nil || !isValidUserID(sender.String()) {",
+  "return errorf(\"Not a valid user ID: %q\", senderID)",
+  "}",
+  "}",
+  "oldPowerLevels := a.powerLevels",
+  "senderLevel := a.userPowerLevel(event.SenderID())",
+  "if err = checkEventLevels(senderLevel, oldPowerLevels, newPowerLevels); err != nil {",
+  "return err",
+  "}",
+  "verImpl, err := GetRoomVersion(event.Version())",
+  "if err != nil {",
+  "return nil",
+  "}",
+  "if err = verImpl.CheckPowerLevelEvent(string(event.SenderID()), a.createEvent, oldPowerLevels, newPowerLevels); err != nil {",
+  "return err",
+  "}",
+  "return checkUserLevels(senderLevel, event.SenderID(), oldPowerLevels, newPowerLevels)"
+]
+
+def eventauth_allowerContext_redactEventAllowed : List String := [
+  "func func(event PDU) error",
+  "allower, err := a.newEventAllower(event.SenderID())",
+  "if err != nil {",
+  "return err",
+  "}",
+  "if err = allower.commonChecks(event); err != nil {",
+  "return err",
+  "}",
+  "roomVersion := allower.create.RoomVersion",
+  "if roomVersion != nil && *roomVersion != \"1\" && *roomVersion != \"2\" {",
+  "return nil",
+  "}",
+  "redactDomain, err := domainFromID(event.Redacts())",
+  "if err != nil {",
+  "return err",
+  "}",
+  "sender, err := a.userIDQuerier(a.roomID, event.SenderID())",
+  "if err != nil {",
+  "return err",
+  "}",
+  "if string(sender.Domain()) == redactDomain {",
+  "return nil",
+  "}",
+  "senderLevel := allower.userPowerLevel(event.SenderID())",
+  "redactLevel := allower.powerLevels.Redact",
+  "if senderLevel >= redactLevel {",
+  "return nil",
+  "}",
+  "return errorf(\"%q is not allowed to redact message from %q. %d < %d\", sender, redactDomain, senderLevel, redactLevel)"
+]
+
+def eventauth_allowerContext_resetCreate : List String := [
+  "func func()",
+  "a.create = CreateContent{}",
+  "a.creators = nil",
+  "a.privilegedCreators = false"
+]
+
+def eventauth_allowerContext_update : List String := [
+  "func func(provider AuthEventProvider)",
+  "if provider != a.provider {",
+  "a.provider = provider",
+  "a.createEvent, a.powerLevelsEvent, a.joinRuleEvent = nil, nil, nil",
+  "a.resetCreate()",
+  "a.powerLevels = PowerLevelContent{}",
+  "a.joinRule = JoinRuleContent{}",
+  "}",
+  "if e, _ := provider.Create(); a.createEvent == nil || a.createEvent != e {",
+  "if c, err := NewCreateContentFromAuthEvents(provider, a.userIDQuerier); err == nil {",
+  "a.createEvent = e",
+  "a.create = c",
+  "a.creators = CreatorsFromCreateEvent(e)",
+  "verImpl := MustGetRoomVersion(e.Version())",
+  "a.privilegedCreators = verImpl.PrivilegedCreators()",
+  "} else {",
+  "a.createEvent = nil",
+  "a.resetCreate()",
+  "}",
+  "}",
+  "if e, _ := provider.PowerLevels(); a.powerLevelsEvent == nil || a.powerLevelsEvent != e {",
+  "creator := \"\"",
+  "if a.createEvent != nil {",
+  "creator = string(a.createEvent.SenderID())",
+  "}",
+  "if p, err := NewPowerLevelContentFromAuthEvents(provider, creator); err == nil {",
+  "a.powerLevelsEvent = e",
+  "a.powerLevels = p",
+  "} else {",
+  "a.powerLevelsEvent = nil",
+  "a.powerLevels = PowerLevelContent{}",
+  "}",
+  "}",
+  "if e, _ := provider.JoinRules(); a.joinRuleEvent == nil || a.joinRuleEvent != e {",
+  "if j, err := NewJoinRuleContentFromAuthEvents(provider); err == nil {",
+  "a.joinRuleEvent, _ = provider.JoinRules()",
+  "a.joinRule = j",
+  "} else {",
+  "a.joinRuleEvent = nil",
+  "a.joinRule = JoinRuleContent{}",
+  "}",
+  "}"
+]
+
+def eventauth_allowerContext_userPowerLevel : List String := [
+  "func func(userID spec.SenderID) int64",
+  "if a.privilegedCreators {",
+  "if slices.Contains(a.creators, string(userID)) {",
+  "return CreatorPowerLevel",
+  "}",
+  "}",
+  "if a.powerLevelsEvent == nil {",
+  "if userID == a.createEvent.SenderID() {",
+  "return CreatorPowerLevel - 1",
+  "}",
+  "return 0",
+  "}",
+  "return a.powerLevels.UserLevel(userID)"
+]
+
+def eventauth_eventAllower_commonChecks : List String := [
+  "func func(event PDU) error",
+  "if event.RoomID().String() != e.create.roomID {",
+  "return errorf(\"create event has different roomID1: %q (%s) != %q (%s)\", event.RoomID().String(), event.EventID(), e.create.roomID, e.create.eventID)",
+  "}",
+  "stateKey := event.StateKey()",
+  "userID, err := e.userIDQuerier(e.roomID, event.SenderID())",
+  "if err != nil {",
+  "return err",
+  "}",
+  "if userID == nil {",
+  "return errorf(\"userID not found for sender %q in room %q\", event.SenderID(), event.RoomID().String())",
+  "}",
+  "if err := e.create.UserIDAllowed(*userID); err != nil {",
+  "return err",
+  "}",
+  "if e.member.Membership != spec.Join {",
+  "return errorf(\"sender %q not in room\", event.SenderID())",
+  "}",
+  "senderLevel := e.userPowerLevel(event.SenderID())",
+  "eventLevel := e.powerLevels.EventLevel(event.Type(), stateKey != nil)",
+  "if senderLevel < eventLevel {",
+  "return errorf(\"sender %q is not allowed to send event. %d < %d\", event.SenderID(), senderLevel, eventLevel)",
+  "}",
+  "if event.Type() != spec.MRoomThirdPartyInvite && stateKey != nil && len(*stateKey) > 0 && (*stateKey)[0] == '@' {",
+  "if spec.SenderID(*stateKey) != event.SenderID() {",
+  "return errorf(\"sender %q is not allowed to modify the state belonging to %q\", event.SenderID(), *stateKey)",
+  "}",
+  "}",
+  "return nil"
+]
+
+def eventauth_membershipAllower_membershipAllowed : List String := [
+  "func func(event PDU) error",
+  "if m.create.roomID != event.RoomID().String() {",
+  "return errorf(\"create event has different roomID: %q (%s) != %q (%s)\", event.RoomID().String(), event.EventID(), m.create.roomID, m.create.eventID)",
+  "}",
+  "var sender *spec.UserID",
+  "var err error",
+  "if event.Type() == spec.MRoomMember {",
+  "mapping := membershipContent{}",
+  "if err := json.Unmarshal(event.Content(), &mapping); err != nil {",
+  "return err",
+  "}",
+  "if mapping.MXIDMapping != nil && event.Version() == RoomVersionPseudoIDs {",
+  "sender, err = spec.NewUserID(mapping.MXIDMapping.UserID, true)",
+  "if err != nil {",
+  "return err",
+  "}",
+  "}",
+  "}",
+  "if sender == nil {",
+  "sender, err = m.userIDQuerier(m.roomID, spec.SenderID(m.senderID))",
+  "if err != nil {",
+  "return err",
+  "}",
+  "}",
+  "if sender == nil {",
+  "return errorf(\"userID not found for sender %q in room %q\", m.senderID, event.RoomID().String())",
+  "}",
+  "if err := m.create.UserIDAllowed(*sender); err != nil {",
+  "return err",
+  "}",
+  "if m.targetID == string(m.createEvent.SenderID()) && m.newMember.Membership == spec.Join && m.senderID == m.targetID && len(event.PrevEventIDs()) == 1 {",
+  "prevEventID := event.PrevEventIDs()[0]",
+  "if prevEventID == m.create.eventID {",
+  "return nil",
+  "}",
+  "}",
+  "if m.newMember.Membership == spec.Invite && m.newMember.ThirdPartyInvite != nil {",
+  "return m.membershipAllowedFromThirdPartyInvite()",
+  "}",
+  "if m.targetID == m.senderID {",
+  "return m.membershipAllowedSelf()",
+  "}",
+  "return m.membershipAllowedOther()"
+]
+
+def eventauth_membershipAllower_membershipAllowedFromThirdPartyInvite : List String := [
+  "func func() error",
+  "if m.targetID != m.newMember.ThirdPartyInvite.Signed.MXID {",
+  "return errorf(\"The invite target %s doesn't match with the Matrix ID provided by the identity server %s\", m.targetID, m.newMember.ThirdPartyInvite.Signed.MXID)",
+  "}",
+  "marshalledSigned, err := json.Marshal(m.newMember.ThirdPartyInvite.Signed)",
+  "if err != nil {",
+  "return err",
+  "}",
+  "for _, publicKey := range m.thirdPartyInvite.PublicKeys {",
+  "for domain, signatures := range m.newMember.ThirdPartyInvite.Signed.Signatures {",
+  "for keyID := range signatures {",
+  "if strings.HasPrefix(keyID, \"ed25519\") {",
+  "if err = VerifyJSON(domain, KeyID(keyID), ed25519.PublicKey(publicKey.PublicKey), marshalledSigned); err == nil {",
+  "return nil",
+  "}",
+  "}",
+  "}",
+  "}",
+  "}",
+  "return errorf(\"Couldn't verify signature on third-party invite for %s\", m.targetID)"
+]
+
+def eventauth_membershipAllower_membershipAllowedOther : List String := [
+  "func func() error",
+  "senderLevel := m.userPowerLevel(spec.SenderID(m.senderID))",
+  "targetLevel := m.userPowerLevel(spec.SenderID(m.targetID))",
+  "if m.senderMember.Membership != spec.Join {",
+  "return errorf(\"sender %q is not in the room\", m.senderID)",
+  "}",
+  "switch m.newMember.Membership {",
+  "case spec.Ban:",
+  "if senderLevel >= m.powerLevels.Ban && senderLevel > targetLevel {",
+  "return nil",
+  "}",
+  "return m.membershipFailed(\"sender has insufficient power to ban (sender level %d, target level %d, ban level %d)\", senderLevel, targetLevel, m.powerLevels.Ban)",
+  "case spec.Leave:",
+  "if m.oldMember.Membership == spec.Ban {",
+  "if senderLevel >= m.powerLevels.Ban {",
+  "return nil",
+  "}",
+  "return m.membershipFailed(\"sender has insufficient power to unban (sender level %d, ban level %d)\", senderLevel, m.powerLevels.Ban)",
+  "}",
+  "if senderLevel >= m.powerLevels.Kick && senderLevel > targetLevel {",
+  "return nil",
+  "}",
+  "return m.membershipFailed(\"sender has insufficient power to kick (sender level %d, target level %d, kick level %d)\", senderLevel, targetLevel, m.powerLevels.Kick)",
+  "case spec.Invite:",
+  "if senderLevel < m.powerLevels.Invite {",
+  "return m.membershipFailed(\"sender has insufficient power to invite (sender level %d, invite level %d)\", senderLevel, m.powerLevels.Invite)",
+  "}",
+  "switch m.oldMember.Membership {",
+  "case spec.Join, spec.Ban:",
+  "return m.membershipFailed(\"target cannot be invited when their membership is %q\", m.oldMember.Membership)",
+  "default:",
+  "return nil",
+  "}",
+  "case spec.Knock, spec.Join:",
+  "return m.membershipFailed(\"sender cannot set membership of another user to %q\", m.newMember.Membership)",
+  "default:",
+  "return m.membershipFailed(\"membership %q is unknown\", m.newMember.Membership)",
+  "}"
+]
+
+def eventauth_membershipAllower_membershipAllowedSelf : List String := [
+  "func func() error",
+  "if m.oldMember.Membership == spec.Leave && m.newMember.Membership == spec.Leave {",
+  "return nil",
+  "}",
+  "if m.oldMember.Membership == spec.Ban {",
+  "return m.membershipFailed(\"sender cannot set their own membership to %q\", m.newMember.Membership)",
+  "}",
+  "switch m.newMember.Membership {",
+  "case spec.Knock:",
+  "return m.roomVersionImpl.CheckKnockingAllowed(string(m.roomVersionImpl.Version()), m.senderID, m.targetID, m.joinRule.JoinRule, m.oldMember.Membership)",
+  "case spec.Join:",
+  "if m.joinRule.JoinRule == spec.Restricted || m.joinRule.JoinRule == spec.KnockRestricted {",
+  "if err := m.membershipAllowedSelfForRestrictedJoin(); err != nil {",
+  "return err",
+  "}",
+  "if m.joinRule.JoinRule == spec.Public {",
+  "return nil",
+  "}",
+  "}",
+  "if m.oldMember.Membership == spec.Invite {",
+  "return nil",
+  "}",
+  "if m.oldMember.Membership == spec.Join {",
+  "return nil",
+  "}",
+  "if m.joinRule.JoinRule == spec.Public {",
+  "return nil",
+  "}",
+  "return m.membershipFailed(\"join rule %q forbids it\", m.joinRule.JoinRule)",
+  "case spec.Leave:",
+  "switch m.oldMember.Membership {",
+  "case spec.Join:",
+  "return nil",
+  "case spec.Invite:",
+  "return nil",
+  "case spec.Knock:",
+  "return nil",
+  "default:",
+  "return m.membershipFailed(\"sender cannot leave from membership state %q\", m.oldMember.Membership)",
+  "}",
+  "case spec.Invite, spec.Ban:",
+  "return m.membershipFailed(\"sender cannot set their own membership to %q\", m.newMember.Membership)",
+  "default:",
+  "return m.membershipFailed(\"membership %q is unknown\", m.newMember.Membership)",
+  "}"
+]
+
+def eventauth_membershipAllower_membershipAllowedSelfForRestrictedJoin : List String := [
+  "func func() error",
+  "if err := m.roomVersionImpl.CheckRestrictedJoinsAllowed(); err != nil {",
+  "return errorf(\"restricted joins are not supported in this room version\")",
+  "}",
+  "if m.oldMember.Membership == spec.Join || m.oldMember.Membership == spec.Invite || m.newMember.AuthorisedVia == \"\" {",
+  "m.joinRule.JoinRule = spec.Invite",
+  "return nil",
+  "}",
+  "switch m.roomVersionImpl.Version() {",
+  "case RoomVersionPseudoIDs:",
+  "default:",
+  "if _, _, err := SplitID('@', m.newMember.AuthorisedVia); err != nil {",
+  "return errorf(\"the 'join_authorised_via_users_server' contains an invalid value %q\", m.newMember.AuthorisedVia)",
+  "}",
+  "}",
+  "otherMember, err := m.provider.Member(spec.SenderID(m.newMember.AuthorisedVia))",
+  "if err != nil {",
+  "return errorf(\"failed to find the membership event for 'join_authorised_via_users_server' user %q\", m.newMember.AuthorisedVia)",
+  "}",
+  "if otherMember == nil {",
+  "return errorf(\"failed to find the membership event for 'join_authorised_via_users_server' user %q\", m.newMember.AuthorisedVia)",
+  "}",
+  "otherMembership, err := otherMember.Membership()",
+  "if err != nil {",
+  "return errorf(\"failed to find the membership status for 'join_authorised_via_users_server' user %q\", m.newMember.AuthorisedVia)",
+  "}",
+  "if otherMembership != spec.Join {",
+  "return errorf(\"the nominated 'join_authorised_via_users_server' user %q is not joined to the room\", m.newMember.AuthorisedVia)",
+  "}",
+  "if pl := m.userPowerLevel(spec.SenderID(m.newMember.AuthorisedVia)); pl < m.powerLevels.Invite {",
+  "return errorf(\"the nominated 'join_authorised_via_users_server' user %q does not have permission to invite (%d < %d)\", m.newMember.AuthorisedVia, pl, m.powerLevels.Invite)",
+  "}",
+  "m.joinRule.JoinRule = spec.Public",
+  "return nil"
+]
+
+def eventauth_membershipAllower_membershipFailed : List String := [
+  "func func(format string, args ...interface{}) error",
+  "if m.senderID == m.targetID {",
+  "return errorf(\"%q is not allowed to change their membership from %q to %q as \"+format, append([]interface{}{m.targetID, m.oldMember.Membership, m.newMember.Membership}, args...)...)",
+  "}",
+  "return errorf(\"%q is not allowed to change the membership of %q from %q to %q as \"+format, append([]interface{}{m.senderID, m.targetID, m.oldMember.Membership, m.newMember.Membership}, args...)...)"
+]
+
+def eventcontent_CreateContent_DomainAllowed : List String := [
+  "func func(domain string) error",
+  "if domain == c.senderDomain {",
+  "return nil",
+  "}",
+  "if c.Federate == nil || *c.Federate {",
+  "return nil",
+  "}",
+  "return errorf(\"room is unfederatable\")"
+]
+
+def eventcontent_CreateContent_UserIDAllowed : List String := [
+  "func func(id spec.UserID) error",
+  "return c.DomainAllowed(string(id.Domain()))"
+]
+
+def eventcontent_HistoryVisibility_Scan : List String := [
+  "func func(src interface{}) error",
+  "switch v := src.(type) { case int64: s, ok := hisVisIntToStringMapping[uint8(v)] if !ok { *h = HistoryVisibilityShared return nil } *h = s return nil case float64: s, ok := hisVisIntToStringMapping[uint8(v)] if !ok { *h = HistoryVisibilityShared return nil } *h = s return nil default: return fmt.Errorf(\"unknown source type: %T for HistoryVisibilty\", src) }"
+]
+
+def eventcontent_HistoryVisibility_Value : List String := [
+  "func func() (driver.Value, error)",
+  "v, ok := hisVisStringToIntMapping[h]",
+  "if !ok {",
+  "return int64(hisVisStringToIntMapping[HistoryVisibilityShared]), nil",
+  "}",
+  "return int64(v), nil"
+]
+
+def eventcontent_MXIDMapping_Sign : List String := [
+  "func func(serverName spec.ServerName, keyID KeyID, privateKey ed25519.PrivateKey) error",
+  "m.Signatures = nil",
+  "unsorted, err := json.Marshal(m)",
+  "if err != nil {",
+  "return err",
+  "}",
+  "canonical, err := CanonicalJSON(unsorted)",
+  "if err != nil {",
+  "return err",
+  "}",
+  "signature := spec.Base64Bytes(ed25519.Sign(privateKey, canonical))",
+  "if m.Signatures == nil {",
+  "m.Signatures = make(map[spec.ServerName]map[KeyID]spec.Base64Bytes)",
+  "}",
+  "if m.Signatures[serverName] == nil {",
+  "m.Signatures[serverName] = make(map[KeyID]spec.Base64Bytes)",
+  "}",
+  "m.Signatures[serverName][keyID] = signature",
+  "return nil"
+]
+
+def eventcontent_PowerLevelContent_Defaults : List String := [
+  "func func()",
+  "c.Invite = 0",
+  "c.Ban = 50",
+  "c.Kick = 50",
+  "c.Redact = 50",
+  "c.UsersDefault = 0",
+  "c.EventsDefault = 0",
+  "c.StateDefault = 50",
+  "c.Notifications = map[string]int64{\"room\": 50}"
+]
+
+def eventcontent_PowerLevelContent_EventLevel : List String := [
+  "func func(eventType string, isState bool) int64",
+  "if eventType == spec.MRoomThirdPartyInvite {",
+  "return c.Invite",
+  "}",
+  "level, ok := c.Events[eventType]",
+  "if ok {",
+  "return level",
+  "}",
+  "if isState {",
+  "return c.StateDefault",
+  "}",
+  "return c.EventsDefault"
+]
+
+def eventcontent_PowerLevelContent_NotificationLevel : List String := [
+  "func func(notification string) int64",
+  "level, ok := c.Notifications[notification]",
+  "if ok {",
+  "return level",
+  "}",
+  "return 50"
+]
+
+def eventcontent_PowerLevelContent_UserLevel : List String := [
+  "func func(senderID spec.SenderID) int64",
+  "level, ok := c.Users[string(senderID)]",
+  "if ok {",
+  "return level",
+  "}",
+  "return c.UsersDefault"
+]
+
+def eventcontent__CreatorsFromCreateEvent : List String := [
+  "func func(createEvent PDU) (creators []string)",
+  "creators = append(creators, string(createEvent.SenderID()))",
+  "var content CreateContent",
+  "err := json.Unmarshal(createEvent.Content(), &content)",
+  "if err != nil {",
+  "panic(\"invalid create event content: \" + string(createEvent.JSON()))",
+  "}",
+  "creators = append(creators, content.AdditionalCreators...)",
+  "return creators"
+]
+
+def eventcontent__NewCreateContentFromAuthEvents : List String := [
+  "func func(authEvents AuthEventProvider, userIDForSender spec.UserIDForSender) (c CreateContent, err error)",
+  "var createEvent PDU",
+  "if createEvent, err = authEvents.Create(); err != nil {",
+  "return",
+  "}",
+  "if createEvent == nil {",
+  "err = errorf(\"missing create event\")",
+  "return",
+  "}",
+  "if err = json.Unmarshal(createEvent.Content(), &c); err != nil {",
+  "err = errorf(\"unparseable create event content: %s\", err.Error())",
+  "return",
+  "}",
+  "c.roomID = createEvent.RoomID().String()",
+  "c.eventID = createEvent.EventID()",
+  "sender, err := userIDForSender(createEvent.RoomID(), createEvent.SenderID())",
+  "if err != nil {",
+  "err = errorf(\"invalid sender userID: %s\", err.Error())",
+  "return",
+  "}",
+  "if sender == nil {",
+  "err = errorf(\"userID not found for sender: %s in room %s\", createEvent.SenderID(), createEvent.RoomID().String())",
+  "return",
+  "}",
+  "c.senderDomain = string(sender.Domain())",
+  "return"
+]
+
+def eventcontent__NewJoinRuleContentFromAuthEvents : List String := [
+  "func func(authEvents AuthEventProvider) (c JoinRuleContent, err error)",
+  "c.JoinRule = spec.Invite",
+  "joinRulesEvent, err := authEvents.JoinRules()",
+  "if err != nil {",
+  "return",
+  "}",
+  "if joinRulesEvent == nil {",
+  "return",
+  "}",
+  "if err = json.Unmarshal(joinRulesEvent.Content(), &c); err != nil {",
+  "err = errorf(\"unparseable join_rules event content: %s\", err.Error())",
+  "return",
+  "}",
+  "return"
+]
+
+def eventcontent__NewMemberContentFromAuthEvents : List String := [
+  "func func(authEvents AuthEventProvider, senderID spec.SenderID) (c MemberContent, err error)",
+  "var memberEvent PDU",
+  "if memberEvent, err = authEvents.Member(senderID); err != nil {",
+  "return",
+  "}",
+  "if memberEvent == nil {",
+  "c.Membership = spec.Leave",
+  "return",
+  "}",
+  "return NewMemberContentFromEvent(memberEvent)"
+]
+
+def eventcontent__NewMemberContentFromEvent : List String := [
+  "func func(event PDU) (c MemberContent, err error)",
+  "if err = json.Unmarshal(event.Content(), &c); err != nil {",
+  "var partial membershipContent",
+  "if err = json.Unmarshal(event.Content(), &partial); err != nil {",
+  "err = errorf(\"unparseable member event content: %s\", err.Error())",
+  "return",
+  "}",
+  "c.Membership = partial.Membership",
+  "c.ThirdPartyInvite = partial.ThirdPartyInvite",
+  "c.AuthorisedVia = partial.AuthorizedVia",
+  "c.MXIDMapping = partial.MXIDMapping",
+  "}",
+  "return"
+]
+
+def eventcontent__NewPowerLevelContentFromAuthEvents : List String := [
+  "func func(authEvents AuthEventProvider, creatorUserID string) (c PowerLevelContent, err error)",
+  "powerLevelsEvent, err := authEvents.PowerLevels()",
+  "if err != nil {",
+  "return",
+  "}",
+  "if powerLevelsEvent != nil {",
+  "return NewPowerLevelContentFromEvent(powerLevelsEvent)",
+  "}",
+  "c.Defaults()",
+  "c.Users = map[string]int64{creatorUserID: 9007199254740991}",
+  "c.StateDefault = 50",
+  "return"
+]
+
+def eventcontent__NewPowerLevelContentFromEvent : List String := [
+  "func func(event PDU) (c PowerLevelContent, err error)",
+  "c.Defaults()",
+  "verImpl, err := GetRoomVersion(event.Version())",
+  "if err != nil {",
+  "return c, err",
+  "}",
+  "if err = verImpl.ParsePowerLevels(event.Content(), &c); err != nil {",
+  "err = errorf(\"unparseable power_levels event content: %s\", err.Error())",
+  "return",
+  "}",
+  "return"
+]
+
+def eventcontent__NewThirdPartyInviteContentFromAuthEvents : List String := [
+  "func func(authEvents AuthEventProvider, token string) (t ThirdPartyInviteContent, err error)",
+  "var thirdPartyInviteEvent PDU",
+  "if thirdPartyInviteEvent, err = authEvents.ThirdPartyInvite(token); err != nil {",
+  "return",
+  "}",
+  "if thirdPartyInviteEvent == nil {",
+  "err = errorf(\"Couldn't find third party invite event\")",
+  "return",
+  "}",
+  "if err = json.Unmarshal(thirdPartyInviteEvent.Content(), &t); err != nil {",
+  "err = errorf(\"unparseable third party invite event content: %s\", err.Error())",
+  "}",
+  "return"
+]
+
+def eventcontent__checkCreateEventV1 : List String := [
+  "func func(event PDU, sender spec.UserID, knownRoomVersion KnownRoomVersionFunc) error",
+  "if sender.Domain() != event.RoomID().Domain() {",
+  "return errorf(\"create event room ID domain does not match sender: %q != %q\", event.RoomID().Domain(), sender.String())",
+  "}",
+  "c := struct { Creator *string `json:\"creator\"` RoomVersion *RoomVersion `json:\"room_version\"` }{}",
+  "if err := json.Unmarshal(event.Content(), &c); err != nil {",
+  "return errorf(\"create event has invalid content: %s\", err.Error())",
+  "}",
+  "if c.Creator == nil {",
+  "return errorf(\"create event has no creator field\")",
+  "}",
+  "if c.RoomVersion != nil {",
+  "if !knownRoomVersion(*c.RoomVersion) {",
+  "return errorf(\"create event has unrecognised room version %q\", *c.RoomVersion)",
+  "}",
+  "}",
+  "return nil"
+]
+
+def eventcontent__checkCreateEventV2 : List String := [
+  "func func(event PDU, sender spec.UserID, knownRoomVersion KnownRoomVersionFunc) error",
+  "if sender.Domain() != event.RoomID().Domain() {",
+  "return errorf(\"create event room ID domain does not match sender: %q != %q\", event.RoomID().Domain(), sender.String())",
+  "}",
+  "c := struct { RoomVersion *RoomVersion `json:\"room_version\"` }{}",
+  "if err := json.Unmarshal(event.Content(), &c); err != nil {",
+  "return errorf(\"create event has invalid content: %s\", err.Error())",
+  "}",
+  "if c.RoomVersion != nil {",
+  "if !knownRoomVersion(*c.RoomVersion) {",
+  "return errorf(\"create event has unrecognised room version %q\", *c.RoomVersion)",
+  "}",
+  "}",
+  "return nil"
+]
+
+def eventcontent__checkCreateEventV3 : List String := [
+  "func func(event PDU, sender spec.UserID, knownRoomVersion KnownRoomVersionFunc) error",
+  "c := struct { RoomVersion *RoomVersion `json:\"room_version\"` AdditionalCreators []string `json:\"additional_creators\"` }{}",
+  "if err := json.Unmarshal(event.Content(), &c); err != nil {",
+  "return errorf(\"create event has invalid content: %s\", err.Error())",
+  "}",
+  "if c.RoomVersion != nil {",
+  "if !knownRoomVersion(*c.RoomVersion) {",
+  "return errorf(\"create event has unrecognised room version %q\", *c.RoomVersion)",
+  "}",
+  "}",
+  "if c.AdditionalCreators != nil {",
+  "for _, creator := range c.AdditionalCreators {",
+  "_, err := spec.NewUserID(creator, true)",
+  "if err != nil {",
+  "return errorf(\"additional creator '%s' invalid: %s\", creator, err)",
+  "}",
+  "}",
+  "}",
+  "ev := struct { RoomID string `json:\"room_id\"` }{}",
+  "if err := json.Unmarshal(event.JSON(), &ev); err != nil {",
+  "return errorf(\"create event cannot be valid json: %s\", err.Error())",
+  "}",
+  "if ev.RoomID != \"\" {",
+  "return errorf(\"create event must not have a room_id set\")",
+  "}",
+  "return nil"
+]
+
+def eventcontent__domainFromID : List String := [
+  "func func(id string) (string, error)",
+  "parts := strings.SplitN(id, \":\", 2)",
+  "if len(parts) != 2 {",
+  "return \"\", errorf(\"invalid ID: %q\", id)",
+  "}",
+  "return parts[1], nil"
+]
+
+def eventcontent__isValidUserID : List String := [
+  "func func(userID string) bool",
+  "return userID[0] == '@' && strings.IndexByte(userID, ':') != -1"
+]
+
+def eventcontent__parseIntegerPowerLevels : List String := [
+  "func func(contentBytes []byte, c *PowerLevelContent) error",
+  "return json.Unmarshal(contentBytes, c)"
+]
+
+def eventcontent__parsePowerLevels : List String := [
+  "func func(contentBytes []byte, c *PowerLevelContent) error",
+  "var content struct { InviteLevel levelJSONValue `json:\"invite\"` BanLevel levelJSONValue `json:\"ban\"` KickLevel levelJSONValue `json:\"kick\"` RedactLevel levelJSONValue `json:\"redact\"` UserLevels map[string]levelJSONValue `json:\"users\"` UsersDefaultLevel levelJSONValue `json:\"users_default\"` EventLevels map[string]levelJSONValue `json:\"events\"` StateDefaultLevel levelJSONValue `json:\"state_default\"` EventDefaultLevel levelJSONValue `json:\"events_default\"` NotificationLevels map[string]levelJSONValue `json:\"notifications\"` }",
+  "if err := json.Unmarshal(contentBytes, &content); err != nil {",
+  "return errorf(\"unparseable power_levels event content: %s\", err.Error())",
+  "}",
+  "content.InviteLevel.assignIfExists(&c.Invite)",
+  "content.BanLevel.assignIfExists(&c.Ban)",
+  "content.KickLevel.assignIfExists(&c.Kick)",
+  "content.RedactLevel.assignIfExists(&c.Redact)",
+  "content.UsersDefaultLevel.assignIfExists(&c.UsersDefault)",
+  "content.StateDefaultLevel.assignIfExists(&c.StateDefault)",
+  "content.EventDefaultLevel.assignIfExists(&c.EventsDefault)",
+  "for k, v := range content.UserLevels {",
+  "if c.Users == nil {",
+  "c.Users = make(map[string]int64)",
+  "}",
+  "c.Users[k] = v.value",
+  "}",
+  "for k, v := range content.EventLevels {",
+  "if c.Events == nil {",
+  "c.Events = make(map[string]int64)",
+  "}",
+  "c.Events[k] = v.value",
+  "}",
+  "for k, v := range content.NotificationLevels {",
+  "if c.Notifications == nil {",
+  "c.Notifications = make(map[string]int64)",
+  "}",
+  "c.Notifications[k] = v.value",
+  "}",
+  "return nil"
+]
+
+def eventcontent_levelJSONValue_UnmarshalJSON : List String := [
+  "func func(data []byte) error",
+  "var stringValue string",
+  "var int64Value int64",
+  "var floatValue float64",
+  "var err error",
+  "if int64Value, err = strconv.ParseInt(string(data), 10, 64); err != nil {",
+  "if err = json.Unmarshal(data, &stringValue); err != nil {",
+  "if floatValue, err = strconv.ParseFloat(string(data), 64); err != nil {",
+  "return err",
+  "}",
+  "int64Value = int64(floatValue)",
+  "} else {",
+  "int64Value, err = strconv.ParseInt(strings.TrimSpace(stringValue), 10, 64)",
+  "if err != nil {",
+  "return err",
+  "}",
+  "}",
+  "}",
+  "v.exists = true",
+  "v.value = int64Value",
+  "return nil"
+]
+
+def eventcontent_levelJSONValue_assignIfExists : List String := [
+  "func func(to *int64)",
+  "if v.exists {",
+  "*to = v.value",
+  "}"
+]
+
+def eventcrypto__VerifyAllEventSignatures : List String := [
+  "func func(ctx context.Context, events []PDU, verifier JSONVerifier, userIDForSender spec.UserIDForSender) []error",
+  "errors := make([]error, 0, len(events))",
+  "for _, e := range events {",
+  "errors = append(errors, VerifyEventSignatures(ctx, e, verifier, userIDForSender))",
+  "}",
+  "return errors"
+]
+
+def eventcrypto__VerifyEventSignatures : List String := [
+  "func func(ctx context.Context, e PDU, verifier JSONVerifier, userIDForSender spec.UserIDForSender) error",
+  "if userIDForSender == nil {",
+  "panic(\"UserIDForSender func is nil\")",
+  "}",
+  "var serverName spec.ServerName",
+  "needed := map[spec.ServerName]struct{}{}",
+  "verImpl, err := GetRoomVersion(e.Version())",
+  "if err != nil {",
+  "return err",
+  "}",
+  "switch e.Version() {",
+  "case RoomVersionPseudoIDs:",
+  "needed[spec.ServerName(e.SenderID())] = struct{}{}",
+  "default:",
+  "sender, err := userIDForSender(e.RoomID(), e.SenderID())",
+  "if err != nil {",
+  "return fmt.Errorf(\"invalid sender userID: %w\", err)",
+  "}",
+  "if sender != nil {",
+  "serverName = sender.Domain()",
+  "needed[serverName] = struct{}{}",
+  "}",
+  "format := verImpl.EventIDFormat()",
+  "if format == EventIDFormatV1 {",
+  "_, serverName, err = SplitID('$', e.EventID())",
+  "if err != nil {",
+  "return fmt.Errorf(\"failed to split event ID: %w\", err)",
+  "}",
+  "needed[serverName] = struct{}{}",
+  "}",
+  "}",
+  "if e.Type() == spec.MRoomMember {",
+  "membership, err := e.Membership()",
+  "if err != nil {",
+  "return fmt.Errorf(\"failed to get membership of membership event: %w\", err)",
+  "}",
+  "if verImpl.Version() == RoomVersionPseudoIDs && membership == spec.Join {",
+  "mapping, err := getMXIDMapping(e)",
+  "if err != nil {",
+  "return err",
+  "}",
+  "err = validateMXIDMappingSignatures(ctx, e, *mapping, verifier, verImpl)",
+  "if err != nil {",
+  "return err",
+  "}",
+  "}",
+  "if membership == spec.Invite {",
+  "switch e.Version() {",
+  "case RoomVersionPseudoIDs:",
+  "needed[spec.ServerName(*e.StateKey())] = struct{}{}",
+  "default:",
+  "_, serverName, err = SplitID('@', *e.StateKey())",
+  "if err != nil {",
+  "return fmt.Errorf(\"failed to split state key: %w\", err)",
+  "}",
+  "needed[serverName] = struct{}{}",
+  "}",
+  "}",
+  "if membership == spec.Join {",
+  "auth, err := verImpl.RestrictedJoinServername(e.Content())",
+  "if err != nil {",
+  "return err",
+  "}",
+  "if auth != \"\" {",
+  "needed[auth] = struct{}{}",
+  "}",
+  "}",
+  "}",
+  "redactedJSON, err := verImpl.RedactEventJSON(e.JSON())",
+  "if err != nil {",
+  "return fmt.Errorf(\"failed to redact event: %w\", err)",
+  "}",
+  "var toVerify []VerifyJSONRequest",
+  "for serverName := range needed {",
+  "v := VerifyJSONRequest{Message: redactedJSON, AtTS: e.OriginServerTS(), ServerName: serverName, ValidityCheckingFunc: verImpl.SignatureValidityCheck}",
+  "toVerify = append(toVerify, v)",
+  "}",
+  "if verImpl.Version() == RoomVersionPseudoIDs {",
+  "verifier = JSONVerifierSelf{}",
+  "}",
+  "results, err := verifier.VerifyJSONs(ctx, toVerify)",
+  "if err != nil {",
+  "return fmt.Errorf(\"failed to verify JSONs: %w\", err)",
+  "}",
+  "for _, result := range results {",
+  "if result.Error != nil {",
+  "return result.Error",
+  "}",
+  "}",
+  "return nil"
+]
+
+def eventcrypto__addContentHashesToEvent : List String := [
+  "func func(eventJSON []byte) ([]byte, error)",
+  "var event map[string]spec.RawJSON",
+  "if err := json.Unmarshal(eventJSON, &event); err != nil {",
+  "return nil, err",
+  "}",
+  "unsignedJSON := event[\"unsigned\"]",
+  "signatures := event[\"signatures\"]",
+  "delete(event, \"signatures\")",
+  "delete(event, \"unsigned\")",
+  "delete(event, \"hashes\")",
+  "hashableEventJSON, err := json.Marshal(event)",
+  "if err != nil {",
+  "return nil, err",
+  "}",
+  "hashableEventJSON, err = CanonicalJSON(hashableEventJSON)",
+  "if err != nil {",
+  "return nil, err",
+  "}",
+  "sha256Hash := sha256.Sum256(hashableEventJSON)",
+  "hashes := struct { Sha256 spec.Base64Bytes `json:\"sha256\"` }{spec.Base64Bytes(sha256Hash[:])}",
+  "hashesJSON, err := json.Marshal(&hashes)",
+  "if err != nil {",
+  "return nil, err",
+  "}",
+  "if len(unsignedJSON) > 0 {",
+  "event[\"unsigned\"] = unsignedJSON",
+  "}",
+  "if len(signatures) > 0 {",
+  "event[\"signatures\"] = signatures",
+  "}",
+  "event[\"hashes\"] = spec.RawJSON(hashesJSON)",
+  "return json.Marshal(event)"
+]
+
+def eventcrypto__checkEventContentHash : List String := [
+  "func func(eventJSON []byte) error",
+  "var err error",
+  "result := gjson.GetBytes(eventJSON, \"hashes.sha256\")",
+  "var hash spec.Base64Bytes",
+  "if err = hash.Decode(result.Str); err != nil {",
+  "return err",
+  "}",
+  "hashableEventJSON := eventJSON",
+  "for _, key := range []string{\"signatures\", \"unsigned\", \"hashes\"} {",
+  "if hashableEventJSON, err = sjson.DeleteBytes(hashableEventJSON, key); err != nil {",
+  "return err",
+  "}",
+  "}",
+  "sha256Hash := sha256.Sum256(hashableEventJSON)",
+  "if !bytes.Equal(sha256Hash[:], []byte(hash)) {",
+  "return fmt.Errorf(\"Invalid Sha256 content hash: %v != %v\", sha256Hash[:], []byte(hash))",
+  "}",
+  "return nil"
+]
+
+def eventcrypto__emptyAuthorisedViaServerName : List String := [
+  "func func([]byte) (spec.ServerName, error)",
+  "return \"\", nil"
+]
+
+def eventcrypto__extractAuthorisedViaServerName : List String := [
+  "func func(content []byte) (spec.ServerName, error)",
+  "if v := gjson.GetBytes(content, \"join_authorised_via_users_server\"); v.Exists() {",
+  "_, serverName, err := SplitID('@', v.String())",
+  "if err != nil {",
+  "return \"\", fmt.Errorf(\"failed to split authorised server: %w\", err)",
+  "}",
+  "if serverName == \"\" {",
+  "return \"\", fmt.Errorf(\"authorised user %q has no server name\", v.String())",
+  "}",
+  "return serverName, nil",
+  "}",
+  "return \"\", nil"
+]
+
+def eventcrypto__getMXIDMapping : List String := [
+  "func func(e PDU) (*MXIDMapping, error)",
+  "var content MemberContent",
+  "err := json.Unmarshal(e.Content(), &content)",
+  "if err != nil {",
+  "return nil, err",
+  "}",
+  "if content.MXIDMapping == nil {",
+  "return nil, fmt.Errorf(\"missing mxid_mapping\")",
+  "}",
+  "return content.MXIDMapping, nil"
+]
+
+def eventcrypto__referenceOfEvent : List String := [
+  "func func(eventJSON []byte, roomVersion RoomVersion) (eventReference, error)",
+  "verImpl, err := GetRoomVersion(roomVersion)",
+  "if err != nil {",
+  "return eventReference{}, err",
+  "}",
+  "return referenceOfEventForVersion(eventJSON, verImpl)"
+]
+
+def eventcrypto__referenceOfEventForVersion : List String := [
+  "func func(eventJSON []byte, verImpl IRoomVersion) (eventReference, error)",
+  "redactedJSON, err := verImpl.RedactEventJSON(eventJSON)",
+  "if err != nil {",
+  "return eventReference{}, err",
+  "}",
+  "var event map[string]spec.RawJSON",
+  "if err = json.Unmarshal(redactedJSON, &event); err != nil {",
+  "return eventReference{}, err",
+  "}",
+  "delete(event, \"signatures\")",
+  "delete(event, \"unsigned\")",
+  "hashableEventJSON, err := json.Marshal(event)",
+  "if err != nil {",
+  "return eventReference{}, err",
+  "}",
+  "hashableEventJSON, err = CanonicalJSON(hashableEventJSON)",
+  "if err != nil {",
+  "return eventReference{}, err",
+  "}",
+  "sha256Hash := sha256.Sum256(hashableEventJSON)",
+  "var eventID string",
+  "eventFormat := verImpl.EventFormat()",
+  "eventIDFormat := verImpl.EventIDFormat()",
+  "switch eventFormat {",
+  "case EventFormatV1:",
+  "if err = json.Unmarshal(event[\"event_id\"], &eventID); err != nil {",
+  "return eventReference{}, err",
+  "}",
+  "case EventFormatV2:",
+  "var encoder *base64.Encoding",
+  "switch eventIDFormat {",
+  "case EventIDFormatV2:",
+  "encoder = base64.RawStdEncoding.WithPadding(base64.NoPadding)",
+  "case EventIDFormatV3:",
+  "encoder = base64.RawURLEncoding.WithPadding(base64.NoPadding)",
+  "default:",
+  "return eventReference{}, UnsupportedRoomVersionError{Version: verImpl.Version()}",
+  "}",
+  "eventID = fmt.Sprintf(\"$%s\", encoder.EncodeToString(sha256Hash[:]))",
+  "default:",
+  "return eventReference{}, UnsupportedRoomVersionError{Version: verImpl.Version()}",
+  "}",
+  "return eventReference{eventID, sha256Hash[:]}, nil"
+]
+
+def eventcrypto__signEvent : List String := [
+  "func func(signingName string, keyID KeyID, privateKey ed25519.PrivateKey, eventJSON []byte, roomVersion RoomVersion) ([]byte, error)",
+  "verImpl, err := GetRoomVersion(roomVersion)",
+  "if err != nil {",
+  "return nil, err",
+  "}",
+  "redactedJSON, err := verImpl.RedactEventJSON(eventJSON)",
+  "if err != nil {",
+  "return nil, err",
+  "}",
+  "signedJSON, err := SignJSON(signingName, keyID, privateKey, redactedJSON)",
+  "if err != nil {",
+  "return nil, err",
+  "}",
+  "var signedEvent struct { Signatures spec.RawJSON `json:\"signatures\"` }",
+  "if err := json.Unmarshal(signedJSON, &signedEvent); err != nil {",
+  "return nil, err",
+  "}",
+  "var event map[string]spec.RawJSON",
+  "if err := json.Unmarshal(eventJSON, &event); err != nil {",
+  "return nil, err",
+  "}",
+  "event[\"signatures\"] = signedEvent.Signatures",
+  "return json.Marshal(event)"
+]
+
+def eventcrypto__validateMXIDMappingSignatures : List String := [
+  "func func(ctx context.Context, e PDU, mapping MXIDMapping, verifier JSONVerifier, verImpl IRoomVersion) error",
+  "mappingBytes, err := json.Marshal(mapping)",
+  "if err != nil {",
+  "return err",
+  "}",
+  "_, userServer, err := SplitID('@', mapping.UserID)",
+  "if err != nil {",
+  "return fmt.Errorf(\"failed to verify MXIDMapping: %w\", err)",
+  "}",
+  "if _, ok := mapping.Signatures[userServer]; !ok {",
+  "return fmt.Errorf(\"failed to verify MXIDMapping: not signed by %q\", userServer)",
+  "}",
+  "var toVerify []VerifyJSONRequest",
+  "for s := range mapping.Signatures {",
+  "v := VerifyJSONRequest{Message: mappingBytes, AtTS: e.OriginServerTS(), ServerName: s, ValidityCheckingFunc: verImpl.SignatureValidityCheck}",
+  "toVerify = append(toVerify, v)",
+  "}",
+  "results, err := verifier.VerifyJSONs(ctx, toVerify)",
+  "if err != nil {",
+  "return fmt.Errorf(\"failed to verify MXIDMapping: %w\", err)",
+  "}",
+  "for _, result := range results {",
+  "if result.Error != nil {",
+  "return fmt.Errorf(\"failed to verify MXIDMapping: %w\", result.Error)",
+  "}",
+  "}",
+  "return err"
+]
+
+def eventversion_RoomVersionImpl_CheckCanonicalJSON : List String := [
+  "func func(eventJSON []byte) error",
+  "return v.canonicalJSONCheck(eventJSON)"
+]
+
+def eventversion_RoomVersionImpl_CheckCreateEvent : List String := [
+  "func func(event PDU, sender spec.UserID, knownRoomVersion KnownRoomVersionFunc) error",
+  "return v.checkCreateEvent(event, sender, knownRoomVersion)"
+]
+
+def eventversion_RoomVersionImpl_CheckKnockingAllowed : List String := [
+  "func func(roomVer, sender, target, joinRule, prevMembership string) error",
+  "return v.checkKnockingAllowedFunc(roomVer, sender, target, joinRule, prevMembership)"
+]
+
+def eventversion_RoomVersionImpl_CheckPowerLevelEvent : List String := [
+  "func func(sender string, createEvent PDU, oldPowerLevels, newPowerLevels PowerLevelContent) error",
+  "return v.checkPowerLevelEvent(sender, createEvent, oldPowerLevels, newPowerLevels)"
+]
+
+def eventversion_RoomVersionImpl_CheckRestrictedJoin : List String := [
+  "func func(ctx context.Context, localServerName spec.ServerName, roomQuerier RestrictedRoomJoinQuerier, roomID spec.RoomID, senderID spec.SenderID) (string, error)",
+  "return v.checkRestrictedJoin(ctx, localServerName, roomQuerier, roomID, senderID, v.privilegedCreators)"
+]
+
+def eventversion_RoomVersionImpl_CheckRestrictedJoinsAllowed : List String := [
+  "func func() error",
+  "return v.checkRestrictedJoinAllowedFunc()"
+]
+
+def eventversion_RoomVersionImpl_DomainlessRoomIDs : List String := [
+  "func func() bool",
+  "return v.domainlessRoomID"
+]
+
+def eventversion_RoomVersionImpl_EventFormat : List String := [
+  "func func() EventFormat",
+  "return v.eventFormat"
+]
+
+def eventversion_RoomVersionImpl_EventIDFormat : List String := [
+  "func func() EventIDFormat",
+  "return v.eventIDFormat"
+]
+
+def eventversion_RoomVersionImpl_NewEventBuilder : List String := [
+  "func func() *EventBuilder",
+  "return &EventBuilder{version: v}"
+]
+
+def eventversion_RoomVersionImpl_NewEventBuilderFromProtoEvent : List String := [
+  "func func(pe *ProtoEvent) *EventBuilder",
+  "eb := v.NewEventBuilder()",
+  "eb.AuthEvents = pe.AuthEvents",
+  "eb.Content = pe.Content",
+  "eb.Depth = pe.Depth",
+  "eb.PrevEvents = pe.PrevEvents",
+  "eb.Redacts = pe.Redacts",
+  "eb.RoomID = pe.RoomID",
+  "eb.SenderID = pe.SenderID",
+  "eb.Signature = pe.Signature",
+  "eb.StateKey = pe.StateKey",
+  "eb.Type = pe.Type",
+  "eb.Unsigned = pe.Unsigned",
+  "return eb"
+]
+
+def eventversion_RoomVersionImpl_NewEventFromTrustedJSON : List String := [
+  "func func(eventJSON []byte, redacted bool) (result PDU, err error)",
+  "return v.newEventFromTrustedJSONFunc(eventJSON, redacted, v)"
+]
+
+def eventversion_RoomVersionImpl_NewEventFromTrustedJSONWithEventID : List String := [
+  "func func(eventID string, eventJSON []byte, redacted bool) (result PDU, err error)",
+  "return v.newEventFromTrustedJSONWithEventIDFunc(eventID, eventJSON, redacted, v)"
+]
+
+def eventversion_RoomVersionImpl_NewEventFromUntrustedJSON : List String := [
+  "func func(eventJSON []byte) (result PDU, err error)",
+  "return v.newEventFromUntrustedJSONFunc(eventJSON, v)"
+]
+
+def eventversion_RoomVersionImpl_ParsePowerLevels : List String := [
+  "func func(contentBytes []byte, c *PowerLevelContent) error",
+  "return v.parsePowerLevelsFunc(contentBytes, c)"
+]
+
+def eventversion_RoomVersionImpl_PrivilegedCreators : List String := [
+  "func func() bool",
+  "return v.privilegedCreators"
+]
+
+def eventversion_RoomVersionImpl_RedactEventJSON : List String := [
+  "func func(eventJSON []byte) ([]byte, error)",
+  "return v.redactionAlgorithm(eventJSON)"
+]
+
+def eventversion_RoomVersionImpl_RestrictedJoinServername : List String := [
+  "func func(content []byte) (spec.ServerName, error)",
+  "return v.restrictedJoinServernameFunc(content)"
+]
+
+def eventversion_RoomVersionImpl_SignatureValidityCheck : List String := [
+  "func func(atTS, validUntilTS spec.Timestamp) bool",
+  "return v.signatureValidityCheckFunc(atTS, validUntilTS)"
+]
+
+def eventversion_RoomVersionImpl_Stable : List String := [
+  "func func() bool",
+  "return v.stable"
+]
+
+def eventversion_RoomVersionImpl_StateResAlgorithm : List String := [
+  "func func() StateResAlgorithm",
+  "return v.stateResAlgorithm"
+]
+
+def eventversion_RoomVersionImpl_Version : List String := [
+  "func func() RoomVersion",
+  "return v.ver"
+]
+
+def eventversion_UnsupportedRoomVersionError_Error : List String := [
+  "func func() string",
+  "return fmt.Sprintf(\"gomatrixserverlib: unsupported room version '%s'\", e.Version)"
+]
+
+def eventversion__GetRoomVersion : List String := [
+  "func func(verStr RoomVersion) (impl IRoomVersion, err error)",
+  "v, ok := roomVersionMeta[verStr]",
+  "if !ok {",
+  "return impl, UnsupportedRoomVersionError{Version: verStr}",
+  "}",
+  "return v, nil"
+]
+
+def eventversion__KnownRoomVersion : List String := [
+  "func func(verStr RoomVersion) bool",
+  "_, ok := roomVersionMeta[verStr]",
+  "return ok"
+]
+
+def eventversion__MustGetRoomVersion : List String := [
+  "func func(verStr RoomVersion) IRoomVersion",
+  "impl, err := GetRoomVersion(verStr)",
+  "if err != nil {",
+  "panic(fmt.Sprintf(\"MustGetRoomVersion: %s\", verStr))",
+  "}",
+  "return impl"
+]
+
+def eventversion__NewEventFromHeaderedJSON : List String := [
+  "func func(headeredEventJSON []byte, redacted bool) (PDU, error)",
+  "eventID := gjson.GetBytes(headeredEventJSON, \"_event_id\").String()",
+  "roomVer := RoomVersion(gjson.GetBytes(headeredEventJSON, \"_room_version\").String())",
+  "verImpl, err := GetRoomVersion(roomVer)",
+  "if err != nil {",
+  "return nil, err",
+  "}",
+  "headeredEventJSON, _ = sjson.DeleteBytes(headeredEventJSON, \"_event_id\")",
+  "headeredEventJSON, _ = sjson.DeleteBytes(headeredEventJSON, \"_room_version\")",
+  "return verImpl.NewEventFromTrustedJSONWithEventID(eventID, headeredEventJSON, redacted)"
+]
+
+def eventversion__RoomVersions : List String := [
+  "func func() map[RoomVersion]IRoomVersion",
+  "return roomVersionMeta"
+]
+
+def eventversion__SetRoomVersion : List String := [
+  "func func(ver IRoomVersion)",
+  "roomVersionMeta[ver.Version()] = ver"
+]
+
+def eventversion__StableRoomVersion : List String := [
+  "func func(verStr RoomVersion) bool",
+  "verImpl, ok := roomVersionMeta[verStr]",
+  "return ok && verImpl.Stable()"
+]
+
+def eventversion__StableRoomVersions : List String := [
+  "func func() map[RoomVersion]IRoomVersion",
+  "versions := make(map[RoomVersion]IRoomVersion)",
+  "for id, version := range RoomVersions() {",
+  "if version.Stable() {",
+  "versions[id] = version",
+  "}",
+  "}",
+  "return versions"
+]
+
+def fclient_federationtypes_DeviceKeys_Scan : List String := [
+  "func func(src interface{}) error",
+  "switch v := src.(type) { case string: return json.Unmarshal([]byte(v), s) case []byte: return json.Unmarshal(v, s) }",
+  "return fmt.Errorf(\"unsupported source type\")"
+]
+
+def fclient_federationtypes_DeviceKeys_Value : List String := [
+  "func func() (driver.Value, error)",
+  "return json.Marshal(s)"
+]
+
+def fclient_federationtypes_DeviceKeys_isCrossSigningBody : List String := [
+  "func func()"
+]
+
+def fclient_federationtypes_MSC2836EventRelationshipsRequest_Defaults : List String := [
+  "func func()",
+  "r.Limit = 100",
+  "r.MaxBreadth = 10",
+  "r.MaxDepth = 3",
+  "r.DepthFirst = false",
+  "r.RecentFirst = true",
+  "r.IncludeParent = false",
+  "r.IncludeChildren = false",
+  "r.Direction = \"down\""
+]
+
+def fclient_federationtypes_RespInvite_MarshalJSON : List String := [
+  "func func() ([]byte, error)",
+  "return json.Marshal([]interface{}{200, respInviteFields(r)})"
+]
+
+def fclient_federationtypes_RespInvite_UnmarshalJSON : List String := [
+  "func func(data []byte) error",
+  "var tuple gomatrixserverlib.EventJSONs",
+  "if err := json.Unmarshal(data, &tuple); err != nil {",
+  "return err",
+  "}",
+  "if len(tuple) != 2 {",
+  "return fmt.Errorf(\"gomatrixserverlib: invalid invite response, invalid length: %d != 2\", len(tuple))",
+  "}",
+  "if jr := gjson.GetBytes(tuple[1], \"event\"); jr.Exists() {",
+  "r.Event = []byte(jr.Raw)",
+  "}",
+  "return nil"
+]
+
+def fclient_federationtypes_RespMakeJoin_GetJoinEvent : List String := [
+  "func func() gomatrixserverlib.ProtoEvent",
+  "return r.JoinEvent"
+]
+
+def fclient_federationtypes_RespMakeJoin_GetRoomVersion : List String := [
+  "func func() gomatrixserverlib.RoomVersion",
+  "return r.RoomVersion"
+]
+
+def fclient_federationtypes_RespPeek_GetAuthEvents : List String := [
+  "func func() gomatrixserverlib.EventJSONs",
+  "return r.AuthEvents"
+]
+
+def fclient_federationtypes_RespPeek_GetStateEvents : List String := [
+  "func func() gomatrixserverlib.EventJSONs",
+  "return r.StateEvents"
+]
+
+def fclient_federationtypes_RespPeek_MarshalJSON : List String := [
+  "func func() ([]byte, error)",
+  "if len(r.StateEvents) == 0 {",
+  "r.StateEvents = gomatrixserverlib.EventJSONs{}",
+  "}",
+  "if len(r.AuthEvents) == 0 {",
+  "r.AuthEvents = gomatrixserverlib.EventJSONs{}",
+  "}",
+  "return json.Marshal(struct { RenewalInterval int64 `json:\"renewal_interval\"` StateEvents gomatrixserverlib.EventJSONs `json:\"state\"` AuthEvents gomatrixserverlib.EventJSONs `json:\"auth_chain\"` RoomVersion gomatrixserverlib.RoomVersion `json:\"room_version\"` LatestEvent gomatrixserverlib.PDU `json:\"latest_event\"` }{RenewalInterval: r.RenewalInterval, StateEvents: r.StateEvents, AuthEvents: r.AuthEvents, RoomVersion: r.RoomVersion, LatestEvent: r.LatestEvent})"
+]
+
+def fclient_federationtypes_RespSendJoin_GetAuthEvents : List String := [
+  "func func() gomatrixserverlib.EventJSONs",
+  "return r.AuthEvents"
+]
+
+def fclient_federationtypes_RespSendJoin_GetJoinEvent : List String := [
+  "func func() spec.RawJSON",
+  "return r.Event"
+]
+
+def fclient_federationtypes_RespSendJoin_GetMembersOmitted : List String := [
+  "func func() bool",
+  "return r.MembersOmitted"
+]
+
+def fclient_federationtypes_RespSendJoin_GetOrigin : List String := [
+  "func func() spec.ServerName",
+  "return r.Origin"
+]
+
+def fclient_federationtypes_RespSendJoin_GetServersInRoom : List String := [
+  "func func() []string",
+  "return r.ServersInRoom"
+]
+
+def fclient_federationtypes_RespSendJoin_GetStateEvents : List String := [
+  "func func() gomatrixserverlib.EventJSONs",
+  "return r.StateEvents"
+]
+
+def fclient_federationtypes_RespSendJoin_MarshalJSON : List String := [
+  "func func() ([]byte, error)",
+  "fields := respSendJoinFields{StateEvents: r.StateEvents, AuthEvents: r.AuthEvents, Origin: r.Origin, Event: r.Event}",
+  "if len(fields.AuthEvents) == 0 {",
+  "fields.AuthEvents = gomatrixserverlib.EventJSONs{}",
+  "}",
+  "if len(fields.StateEvents) == 0 {",
+  "fields.StateEvents = gomatrixserverlib.EventJSONs{}",
+  "}",
+  "if !r.MembersOmitted {",
+  "return json.Marshal(fields)",
+  "}",
+  "partialJoinFields := respSendJoinPartialStateFields{respSendJoinFields: fields, MembersOmitted: true, ServersInRoom: r.ServersInRoom}",
+  "return json.Marshal(partialJoinFields)"
+]
+
+def fclient_federationtypes_RespStateIDs_GetAuthEventIDs : List String := [
+  "func func() []string",
+  "return r.AuthEventIDs"
+]
+
+def fclient_federationtypes_RespStateIDs_GetStateEventIDs : List String := [
+  "func func() []string",
+  "return r.StateEventIDs"
+]
+
+def fclient_federationtypes_RespState_GetAuthEvents : List String := [
+  "func func() gomatrixserverlib.EventJSONs",
+  "return r.AuthEvents"
+]
+
+def fclient_federationtypes_RespState_GetStateEvents : List String := [
+  "func func() gomatrixserverlib.EventJSONs",
+  "return r.StateEvents"
+]
+
+def fclient_federationtypes_RespState_MarshalJSON : List String := [
+  "func func() ([]byte, error)",
+  "if len(r.StateEvents) == 0 {",
+  "r.StateEvents = gomatrixserverlib.EventJSONs{}",
+  "}",
+  "if len(r.AuthEvents) == 0 {",
+  "r.AuthEvents = gomatrixserverlib.EventJSONs{}",
+  "}",
+  "return json.Marshal(respStateFields{StateEvents: r.StateEvents, AuthEvents: r.AuthEvents})"
+]
+
+def fclient_federationtypes_RespUserDevices_UnmarshalJSON : List String := [
+  "func func(data []byte) error",
+  "intermediate := struct { UserID string `json:\"user_id\"` StreamID int64 `json:\"stream_id\"` Devices []json.RawMessage `json:\"devices\"` MasterKey json.RawMessage `json:\"master_key\"` SelfSigningKey json.RawMessage `json:\"self_signing_key\"` }{}",
+  "if err := json.Unmarshal(data, &intermediate); err != nil {",
+  "return err",
+  "}",
+  "r.UserID = intermediate.UserID",
+  "r.StreamID = intermediate.StreamID",
+  "_ = json.Unmarshal(intermediate.MasterKey, &r.MasterKey)",
+  "_ = json.Unmarshal(intermediate.SelfSigningKey, &r.SelfSigningKey)",
+  "for _, deviceJSON := range intermediate.Devices {",
+  "var device RespUserDevice",
+  "if err := json.Unmarshal(deviceJSON, &device); err == nil {",
+  "r.Devices = append(r.Devices, device)",
+  "}",
+  "}",
+  "return nil"
+]
+
+def fclient_federationtypes__NewMSC2836EventRelationshipsRequest : List String := [
+  "func func(body io.Reader) (*MSC2836EventRelationshipsRequest, error)",
+  "var relation MSC2836EventRelationshipsRequest",
+  "relation.Defaults()",
+  "if err := json.NewDecoder(body).Decode(&relation); err != nil {",
+  "return nil, err",
+  "}",
+  "return &relation, nil"
+]
+
+def fclient_request_FederationRequest_Content : List String := [
+  "func func() []byte",
+  "return []byte(r.fields.Content)"
+]
+
+def fclient_request_FederationRequest_Destination : List String := [
+  "func func() spec.ServerName",
+  "return r.fields.Destination"
+]
+
+def fclient_request_FederationRequest_HTTPRequest : List String := [
+  "func func() (*http.Request, error)",
+  "urlStr := fmt.Sprintf(\"matrix://%s%s\", r.fields.Destination, r.fields.RequestURI)",
+  "var content io.Reader",
+  "if r.fields.Content != nil {",
+  "content = bytes.NewReader([]byte(r.fields.Content))",
+  "}",
+  "httpReq, err := http.NewRequest(r.fields.Method, urlStr, content)",
+  "if err != nil {",
+  "return nil, err",
+  "}",
+  "if httpReq.URL.RequestURI() != r.fields.RequestURI {",
+  "return nil, fmt.Errorf(\"gomatrixserverlib: Request URI didn't encode properly. Wanted %q. Got %q\", r.fields.RequestURI, httpReq.URL.RequestURI())",
+  "}",
+  "if r.fields.Content != nil {",
+  "httpReq.Header.Set(\"Content-Type\", \"application/json\")",
+  "}",
+  "for keyID, sig := range r.fields.Signatures[r.fields.Origin] {",
+  "if !isSafeInHTTPQuotedString(string(r.fields.Origin)) {",
+  "return nil, fmt.Errorf(\"gomatrixserverlib: Request Origin isn't safe to include in an HTTP header\")",
+  "}",
+  "if !isSafeInHTTPQuotedString(string(keyID)) {",
+  "return nil, fmt.Errorf(\"gomatrixserverlib: Request key ID isn't safe to include in an HTTP header\")",
+  "}",
+  "if !isSafeInHTTPQuotedString(string(r.fields.Destination)) {",
+  "return nil, fmt.Errorf(\"gomatrixserverlib: Request Destination isn't safe to include in an HTTP header\")",
+  "}",
+  "httpReq.Header.Add(\"Authorization\", fmt.Sprintf(\"X-Matrix origin=\\\"%s\\\",key=\\\"%s\\\",sig=\\\"%s\\\",destination=\\\"%s\\\"\", r.fields.Origin, keyID, sig, r.fields.Destination))",
+  "}",
+  "return httpReq, nil"
+]
+
+def fclient_request_FederationRequest_Method : List String := [
+  "func func() string",
+  "return r.fields.Method"
+]
+
+def fclient_request_FederationRequest_Origin : List String := [
+  "func func() spec.ServerName",
+  "return r.fields.Origin"
+]
+
+def fclient_request_FederationRequest_RequestURI : List String := [
+  "func func() string",
+  "return r.fields.RequestURI"
+]
+
+def fclient_request_FederationRequest_SetContent : List String := [
+  "func func(content interface{}) error",
+  "if r.fields.Content != nil {",
+  "return fmt.Errorf(\"gomatrixserverlib: content already set on the request\")",
+  "}",
+  "if r.fields.Signatures != nil {",
+  "return fmt.Errorf(\"gomatrixserverlib: the request is signed and cannot be modified\")",
+  "}",
+  "data, err := json.Marshal(content)",
+  "if err != nil {",
+  "return err",
+  "}",
+  "r.fields.Content = spec.RawJSON(data)",
+  "return nil"
+]
+
+def fclient_request_FederationRequest_Sign : List String := [
+  "func func(serverName spec.ServerName, keyID gomatrixserverlib.KeyID, privateKey ed25519.PrivateKey) error",
+  "if r.fields.Origin != \"\" && r.fields.Origin != serverName {",
+  "return fmt.Errorf(\"gomatrixserverlib: the request is already signed by a different server\")",
+  "}",
+  "r.fields.Origin = serverName",
+  "data, err := json.Marshal(r.fields)",
+  "if err != nil {",
+  "return err",
+  "}",
+  "signedData, err := gomatrixserverlib.SignJSON(string(serverName), keyID, privateKey, data)",
+  "if err != nil {",
+  "return err",
+  "}",
+  "return json.Unmarshal(signedData, &r.fields)"
+]
+
+def fclient_request__NewFederationRequest : List String := [
+  "func func(method string, origin, destination spec.ServerName, requestURI string) FederationRequest",
+  "var r FederationRequest",
+  "r.fields.Origin = origin",
+  "r.fields.Destination = destination",
+  "r.fields.Method = strings.ToUpper(method)",
+  "r.fields.RequestURI = requestURI",
+  "return r"
+]
+
+def fclient_request__ParseAuthorization : List String := [
+  "func func(header string) (scheme string, origin, destination spec.ServerName, key gomatrixserverlib.KeyID, sig string)",
+  "parts := strings.SplitN(header, \" \", 2)",
+  "scheme = parts[0]",
+  "if scheme != \"X-Matrix\" {",
+  "return",
+  "}",
+  "if len(parts) != 2 {",
+  "return",
+  "}",
+  "for _, data := range strings.Split(parts[1], \",\") {",
+  "pair := strings.SplitN(data, \"=\", 2)",
+  "if len(pair) != 2 {",
+  "continue",
+  "}",
+  "name := strings.TrimSpace(pair[0])",
+  "value := strings.Trim(strings.TrimSpace(pair[1]), \"\\\"\")",
+  "if name == \"origin\" {",
+  "origin = spec.ServerName(value)",
+  "}",
+  "if name == \"key\" {",
+  "key = gomatrixserverlib.KeyID(value)",
+  "}",
+  "if name == \"sig\" {",
+  "sig = value",
+  "}",
+  "if name == \"destination\" {",
+  "destination = spec.ServerName(value)",
+  "}",
+  "}",
+  "return"
+]
+
+def fclient_request__VerifyHTTPRequest : List String := [
+  "func func(req *http.Request, now time.Time, destination spec.ServerName, isLocalServerName func(spec.ServerName) bool, keys gomatrixserverlib.JSONVerifier) (*FederationRequest, util.JSONResponse)",
+  "request, err := readHTTPRequest(req)",
+  "if err != nil {",
+  "util.GetLogger(req.Context()).WithError(err).Print(\"Error parsing HTTP headers\")",
+  "return nil, util.MessageResponse(400, \"Bad Request\")",
+  "}",
+  "if request.fields.Destination != \"\" {",
+  "switch {",
+  "case isLocalServerName != nil && !isLocalServerName(request.fields.Destination):",
+  "fallthrough",
+  "case isLocalServerName == nil && destination != request.fields.Destination:",
+  "message := fmt.Sprintf(\"Unrecognised server name %q for Destination\", request.fields.Destination)",
+  "util.GetLogger(req.Context()).Warn(message)",
+  "return nil, util.MessageResponse(400, message)",
+  "}",
+  "} else if request.fields.Destination == \"\" {",
+  "request.fields.Destination = destination",
+  "}",
+  "toVerify, err := json.Marshal(request.fields)",
+  "if err != nil {",
+  "util.GetLogger(req.Context()).WithError(err).Print(\"Error parsing JSON\")",
+  "return nil, util.MessageResponse(400, \"Invalid JSON\")",
+  "}",
+  "if request.Origin() == \"\" {",
+  "message := \"Missing \\\"Authorization: X-Matrix ...\\\" HTTP header\"",
+  "util.GetLogger(req.Context()).WithError(err).Print(message)",
+  "return nil, util.MessageResponse(401, message)",
+  "}",
+  "_, _, valid := spec.ParseAndValidateServerName(request.Origin())",
+  "if !valid {",
+  "message := \"Invalid server name for Origin\"",
+  "util.GetLogger(req.Context()).WithError(err).Print(message)",
+  "return nil, util.MessageResponse(400, message)",
+  "}",
+  "results, err := keys.VerifyJSONs(req.Context(), []gomatrixserverlib.VerifyJSONRequest{{ServerName: request.Origin(), AtTS: spec.AsTimestamp(now), Message: toVerify, ValidityCheckingFunc: gomatrixserverlib.StrictValiditySignatureCheck}})",
+  "if err != nil {",
+  "message := \"Error authenticating request\"",
+  "util.GetLogger(req.Context()).WithError(err).Print(message)",
+  "return nil, util.MessageResponse(500, message)",
+  "}",
+  "if results[0].Error != nil {",
+  "message := \"Invalid request signature\"",
+  "util.GetLogger(req.Context()).WithError(results[0].Error).Print(message)",
+  "return nil, util.MessageResponse(401, message)",
+  "}",
+  "return request, util.JSONResponse{Code: 200, JSON: struct{}{}}"
+]
+
+def fclient_request__isSafeInHTTPQuotedString : List String := [
+  "func func(text string) bool",
+  "for i := 0; i < len(text); i++ {",
+  "c := text[i]",
+  "switch {",
+  "case c == '\\t':",
+  "continue",
+  "case c == ' ':",
+  "continue",
+  "case c == 0x21:",
+  "continue",
+  "case 0x23 <= c && c <= 0x5B:",
+  "continue",
+  "case 0x5D <= c && c <= 0x7E:",
+  "continue",
+  "case 0x80 <= c:",
+  "continue",
+  "default:",
+  "return false",
+  "}",
+  "}",
+  "return true"
+]
+
+def fclient_request__readHTTPRequest : List String := [
+  "func func(req *http.Request) (*FederationRequest, error)",
+  "var result FederationRequest",
+  "result.fields.Method = req.Method",
+  "result.fields.RequestURI = req.URL.RequestURI()",
+  "content, err := io.ReadAll(req.Body)",
+  "if err != nil {",
+  "return nil, err",
+  "}",
+  "if len(content) != 0 {",
+  "mimetype, _, err := mime.ParseMediaType(req.Header.Get(\"Content-Type\"))",
+  "if err != nil {",
+  "return nil, fmt.Errorf(\"gomatrixserverlib: The request had an invalid Content-Type header: %w\", err)",
+  "}",
+  "if mimetype != \"application/json\" {",
+  "return nil, fmt.Errorf(\"gomatrixserverlib: The request must be \\\"application/json\\\" not %q\", mimetype)",
+  "}",
+  "if !utf8.Valid(content) {",
+  "return nil, fmt.Errorf(\"gomatrixserverlib: The request contained invalid UTF-8\")",
+  "}",
+  "result.fields.Content = spec.RawJSON(content)",
+  "}",
+  "for _, authorization := range req.Header[\"Authorization\"] {",
+  "scheme, origin, destination, key, sig := ParseAuthorization(authorization)",
+  "if scheme != \"X-Matrix\" {",
+  "continue",
+  "}",
+  "if origin == \"\" || key == \"\" || sig == \"\" {",
+  "return nil, fmt.Errorf(\"gomatrixserverlib: invalid X-Matrix authorization header\")",
+  "}",
+  "if result.fields.Origin != \"\" && result.fields.Origin != origin {",
+  "return nil, fmt.Errorf(\"gomatrixserverlib: different origins in X-Matrix authorization headers\")",
+  "}",
+  "result.fields.Origin = origin",
+  "result.fields.Destination = destination",
+  "if result.fields.Signatures == nil {",
+  "result.fields.Signatures = map[spec.ServerName]map[gomatrixserverlib.KeyID]string{origin: {key: sig}}",
+  "} else {",
+  "result.fields.Signatures[origin][key] = sig",
+  "}",
+  "}",
+  "return &result, nil"
+]
+
+def json_EventJSONs_TrustedEvents : List String := [
+  "func func(roomVersion RoomVersion, redacted bool) []PDU",
+  "verImpl, err := GetRoomVersion(roomVersion)",
+  "if err != nil {",
+  "return nil",
+  "}",
+  "events := make([]PDU, 0, len(e))",
+  "for _, js := range e {",
+  "event, err := verImpl.NewEventFromTrustedJSON(js, redacted)",
+  "if err != nil {",
+  "continue",
+  "}",
+  "events = append(events, event)",
+  "}",
+  "return events"
+]
+
+def json_EventJSONs_UntrustedEvents : List String := [
+  "func func(roomVersion RoomVersion) []PDU",
+  "verImpl, err := GetRoomVersion(roomVersion)",
+  "if err != nil {",
+  "return nil",
+  "}",
+  "events := make([]PDU, 0, len(e))",
+  "for _, js := range e {",
+  "event, err := verImpl.NewEventFromUntrustedJSON(js)",
+  "switch e := err.(type) { case EventValidationError: if !e.Persistable { continue } case nil: default: continue }",
+  "if event == nil {",
+  "continue",
+  "}",
+  "events = append(events, event)",
+  "}",
+  "return events"
+]
+
+def json__CanonicalJSON : List String := [
+  "func func(input []byte) ([]byte, error)",
+  "if !gjson.Valid(string(input)) {",
+  "return nil, BadJSONError{errors.New(\"gjson validation failed\")}",
+  "}",
+  "return CanonicalJSONAssumeValid(input), nil"
+]
+
+def json__CanonicalJSONAssumeValid : List String := [
+  "func func(input []byte) []byte",
+  "input = CompactJSON(input, make([]byte, 0, len(input)))",
+  "return SortJSON(input, make([]byte, 0, len(input)))"
+]
+
+def json__CompactJSON : List String := [
+  "func func(input, output []byte) []byte",
+  "var i int",
+  "for ; i < len(input);  {",
+  "c := input[i]",
+  "i++",
+  "if c <= ' ' {",
+  "continue",
+  "}",
+  "if c == '-' && isNegativeZeroLiteral(input, i) {",
+  "continue",
+  "}",
+  "output = append(output, c)",
+  "if c == '\"' {",
+  "for ; i < len(input);  {",
+  "c = input[i]",
+  "i++",
+  "if c == '\\\\' {",
+  "escape := input[i]",
+  "i++",
+  "if escape == 'u' {",
+  "output, i = compactUnicodeEscape(input, output, i)",
+  "} else if escape == '/' {",
+  "output = append(output, escape)",
+  "} else {",
+  "output = append(output, '\\\\', escape)",
+  "}",
+  "} else {",
+  "output = append(output, c)",
+  "}",
+  "if c == '\"' {",
+  "break",
+  "}",
+  "}",
+  "}",
+  "}",
+  "return output"
+]
+
+def json__EnforcedCanonicalJSON : List String := [
+  "func func(input []byte, roomVersion RoomVersion) ([]byte, error)",
+  "roomVersionImpl, err := GetRoomVersion(roomVersion)",
+  "if err != nil {",
+  "return nil, err",
+  "}",
+  "if err := roomVersionImpl.CheckCanonicalJSON(input); err != nil {",
+  "return nil, BadJSONError{err}",
+  "}",
+  "return CanonicalJSON(input)"
+]
+
+def json__NewEventJSONsFromEvents : List String := [
+  "func func(he []PDU) EventJSONs",
+  "events := make(EventJSONs, len(he))",
+  "for i := range he {",
+  "events[i] = he[i].JSON()",
+  "}",
+  "return events"
+]
+
+def json__SortJSON : List String := [
+  "func func(input, output []byte) []byte",
+  "result := gjson.ParseBytes(input)",
+  "return sortJSONValue(result, output)"
+]
+
+def json__compactUnicodeEscape : List String := [
+  "func func(input, output []byte, index int) ([]byte, int)",
+  "appendUTF8 := func(c rune) { var buffer [4]byte n := utf8.EncodeRune(buffer[:], c) output = append(output, buffer[:n]...) }",
+  "const ( ESCAPES = \"uuuuuuuubtnufruuuuuuuuuuuuuuuuuu\" HEX = \"0123456789abcdef\" )",
+  "if len(input)-index < 4 {",
+  "return output, len(input)",
+  "}",
+  "c := readHexDigits(input[index : index+4])",
+  "index += 4",
+  "if c < ' ' {",
+  "escape := ESCAPES[c]",
+  "output = append(output, '\\\\', escape)",
+  "if escape == 'u' {",
+  "output = append(output, '0', '0', byte('0'+(c>>4)), HEX[c&0xF])",
+  "}",
+  "} else if c == '\\\\' || c == '\"' {",
+  "output = append(output, '\\\\', byte(c))",
+  "} else if utf16.IsSurrogate(c) {",
+  "if input[index] != '\\\\' || input[index+1] != 'u' {",
+  "return output, index",
+  "}",
+  "index += 2",
+  "if len(input)-index < 4 {",
+  "return output, index",
+  "}",
+  "c2 := readHexDigits(input[index : index+4])",
+  "index += 4",
+  "appendUTF8(utf16.DecodeRune(c, c2))",
+  "} else {",
+  "appendUTF8(c)",
+  "}",
+  "return output, index"
+]
+
+def json__isNegativeZeroLiteral : List String := [
+  "func func(input []byte, i int) bool",
+  "if i >= len(input) || input[i] != '0' {",
+  "return false",
+  "}",
+  "if i+1 < len(input) && (input[i+1] == '.' || input[i+1] == 'e' || input[i+1] == 'E') {",
+  "return false",
+  "}",
+  "if i >= 2 && (input[i-2] == 'e' || input[i-2] == 'E') {",
+  "return false",
+  "}",
+  "return true"
+]
+
+def json__noVerifyCanonicalJSON : List String := [
+  "func func(input []byte) error",
+  "return nil"
+]
+
+def json__readHexDigits : List String := [
+  "func func(input []byte) rune",
+  "hex := binary.BigEndian.Uint32(input)",
+  "hex -= 0x30303030",
+  "hex &= 0x1F1F1F1F",
+  "mask := hex & 0x10101010",
+  "hex -= mask >> 1",
+  "hex += mask >> 4",
+  "hex |= hex >> 4",
+  "hex &= 0xFF00FF",
+  "hex |= hex >> 8",
+  "return rune(hex & 0xFFFF)"
+]
+
+def json__sortJSONArray : List String := [
+  "func func(input gjson.Result, output []byte) []byte",
+  "sep := byte('[')",
+  "input.ForEach(func(_, value gjson.Result) bool { output = append(output, sep) sep = ',' output = sortJSONValue(value, output) return true })",
+  "if sep == '[' {",
+  "output = append(output, '[', ']')",
+  "} else {",
+  "output = append(output, ']')",
+  "}",
+  "return output"
+]
+
+def json__sortJSONObject : List String := [
+  "func func(input gjson.Result, output []byte) []byte",
+  "type entry struct { key string raw string value gjson.Result }// The parsed key string // The raw (still escaped, quoted) key as it appears in the input",
+  "var _entries [128]entry",
+  "entries := _entries[:0]",
+  "input.ForEach(func(key, value gjson.Result) bool { entries = append(entries, entry{key: key.String(), raw: key.Raw, value: value}) return true })",
+  "slices.SortFunc(entries, func(a, b entry) int { return strings.Compare(a.key, b.key) })",
+  "sep := byte('{')",
+  "for _, entry := range entries {",
+  "output = append(output, sep)",
+  "sep = ','",
+  "output = append(output, entry.raw...)",
+  "output = append(output, ':')",
+  "output = sortJSONValue(entry.value, output)",
+  "}",
+  "if sep == '{' {",
+  "output = append(output, '{', '}')",
+  "} else {",
+  "output = append(output, '}')",
+  "}",
+  "return output"
+]
+
+def json__sortJSONValue : List String := [
+  "func func(input gjson.Result, output []byte) []byte",
+  "if input.IsArray() {",
+  "return sortJSONArray(input, output)",
+  "}",
+  "if input.IsObject() {",
+  "return sortJSONObject(input, output)",
+  "}",
+  "return append(output, input.Raw...)"
+]
+
+def json__verifyEnforcedCanonicalJSON : List String := [
+  "func func(input []byte) error",
+  "valid := true",
+  "res := gjson.ParseBytes(input)",
+  "var iter func(key, value gjson.Result) bool",
+  "iter = func(_, value gjson.Result) bool { if value.IsArray() || value.IsObject() { value.ForEach(iter) return true } if value.Num < -9007199254740991 || value.Num > 9007199254740991 { valid = false return false } if value.Type == gjson.Number && strings.ContainsAny(value.Raw, \".eE\") { valid = false return false } if value.Num == 0 && value.Raw == \"-0\" { valid = false return false } return true }",
+  "res.ForEach(iter)",
+  "if !valid {",
+  "return ErrCanonicalJSON",
+  "}",
+  "return nil"
+]
+
+def keys_ServerKeys_MarshalJSON : List String := [
+  "func func() ([]byte, error)",
+  "if len(keys.Raw) == 0 {",
+  "js, err := json.Marshal(keys.ServerKeyFields)",
+  "if err != nil {",
+  "return nil, err",
+  "}",
+  "return js, nil",
+  "}",
+  "return keys.Raw, nil"
+]
+
+def keys_ServerKeys_PublicKey : List String := [
+  "func func(keyID KeyID, atTS spec.Timestamp) []byte",
+  "if currentKey, ok := keys.VerifyKeys[keyID]; ok && (atTS <= keys.ValidUntilTS) {",
+  "return currentKey.Key",
+  "}",
+  "if oldKey, ok := keys.OldVerifyKeys[keyID]; ok && (atTS <= oldKey.ExpiredTS) {",
+  "return oldKey.Key",
+  "}",
+  "return nil"
+]
+
+def keys_ServerKeys_UnmarshalJSON : List String := [
+  "func func(data []byte) error",
+  "keys.Raw = data",
+  "return json.Unmarshal(data, &keys.ServerKeyFields)"
+]
+
+def keys__CheckKeys : List String := [
+  "func func(serverName spec.ServerName, now time.Time, keys ServerKeys) (checks KeyChecks, ed25519Keys map[KeyID]spec.Base64Bytes)",
+  "checks.MatchingServerName = serverName == keys.ServerName",
+  "checks.FutureValidUntilTS = keys.ValidUntilTS.Time().After(now)",
+  "checks.AllChecksOK = checks.MatchingServerName && checks.FutureValidUntilTS",
+  "ed25519Keys = checkVerifyKeys(keys, &checks)",
+  "if !checks.AllChecksOK {",
+  "ed25519Keys = nil",
+  "}",
+  "return"
+]
+
+def keys__checkVerifyKeys : List String := [
+  "func func(keys ServerKeys, checks *KeyChecks) map[KeyID]spec.Base64Bytes",
+  "allEd25519ChecksOK := true",
+  "checks.Ed25519Checks = map[KeyID]Ed25519Checks{}",
+  "verifyKeys := map[KeyID]spec.Base64Bytes{}",
+  "for keyID, keyData := range keys.VerifyKeys {",
+  "algorithm := strings.SplitN(string(keyID), \":\", 2)[0]",
+  "publicKey := keyData.Key",
+  "if algorithm == \"ed25519\" {",
+  "checks.HasEd25519Key = true",
+  "checks.AllEd25519ChecksOK = &allEd25519ChecksOK",
+  "entry := Ed25519Checks{ValidEd25519: len(publicKey) == 32}",
+  "if entry.ValidEd25519 {",
+  "err := VerifyJSON(string(keys.ServerName), keyID, []byte(publicKey), keys.Raw)",
+  "entry.MatchingSignature = err == nil",
+  "}",
+  "checks.Ed25519Checks[keyID] = entry",
+  "if entry.MatchingSignature {",
+  "verifyKeys[keyID] = publicKey",
+  "} else {",
+  "allEd25519ChecksOK = false",
+  "}",
+  "}",
+  "}",
+  "if checks.AllChecksOK {",
+  "checks.AllChecksOK = checks.HasEd25519Key && allEd25519ChecksOK",
+  "}",
+  "return verifyKeys"
+]
+
+def signing__ListKeyIDs : List String := [
+  "func func(signingName string, message []byte) ([]KeyID, error)",
+  "var members map[string]json.RawMessage",
+  "if err := json.Unmarshal(message, &members); err != nil {",
+  "return nil, err",
+  "}",
+  "var object struct { Signatures map[string]map[KeyID]json.RawMessage }",
+  "if raw, ok := members[\"signatures\"]; ok {",
+  "if err := json.Unmarshal(raw, &object.Signatures); err != nil {",
+  "return nil, err",
+  "}",
+  "}",
+  "var result []KeyID",
+  "for keyID := range object.Signatures[signingName] {",
+  "result = append(result, keyID)",
+  "}",
+  "return result, nil"
+]
+
+def signing__SignJSON : List String := [
+  "func func(signingName string, keyID KeyID, privateKey ed25519.PrivateKey, message []byte) (signed []byte, err error)",
+  "preserve := struct { Signatures map[string]map[KeyID]spec.Base64Bytes `json:\"signatures\"` Unsigned spec.RawJSON `json:\"unsigned\"` }{Signatures: map[string]map[KeyID]spec.Base64Bytes{}}",
+  "var object map[string]json.RawMessage",
+  "if err = json.Unmarshal(message, &object); err != nil {",
+  "return nil, err",
+  "}",
+  "if raw, ok := object[\"signatures\"]; ok {",
+  "if err = json.Unmarshal(raw, &preserve.Signatures); err != nil {",
+  "return nil, err",
+  "}",
+  "}",
+  "preserve.Unsigned = spec.RawJSON(object[\"unsigned\"])",
+  "if message, err = sjson.DeleteBytes(message, \"signatures\"); err != nil {",
+  "return nil, err",
+  "}",
+  "if message, err = sjson.DeleteBytes(message, \"unsigned\"); err != nil {",
+  "return nil, err",
+  "}",
+  "canonical, err := CanonicalJSON(message)",
+  "if err != nil {",
+  "return nil, err",
+  "}",
+  "signature := spec.Base64Bytes(ed25519.Sign(privateKey, canonical))",
+  "if preserve.Signatures == nil {",
+  "preserve.Signatures = map[string]map[KeyID]spec.Base64Bytes{}",
+  "}",
+  "if existing := preserve.Signatures[signingName]; existing != nil {",
+  "existing[keyID] = signature",
+  "} else {",
+  "preserve.Signatures[signingName] = map[KeyID]spec.Base64Bytes{keyID: signature}",
+  "}",
+  "signatures, err := json.Marshal(preserve.Signatures)",
+  "if err != nil {",
+  "return nil, err",
+  "}",
+  "if signed, err = sjson.SetRawBytes(canonical, \"signatures\", signatures); err != nil {",
+  "return nil, err",
+  "}",
+  "if len(preserve.Unsigned) > 0 {",
+  "if signed, err = sjson.SetRawBytes(signed, \"unsigned\", preserve.Unsigned); err != nil {",
+  "return nil, err",
+  "}",
+  "}",
+  "if signed, err = CanonicalJSON(signed); err != nil {",
+  "return nil, err",
+  "}",
+  "return"
+]
+
+def signing__VerifyJSON : List String := [
+  "func func(signingName string, keyID KeyID, publicKey ed25519.PublicKey, message []byte) error",
+  "var object map[string]*json.RawMessage",
+  "var signatures map[string]map[KeyID]spec.Base64Bytes",
+  "if err := json.Unmarshal(message, &object); err != nil {",
+  "return err",
+  "}",
+  "if object[\"signatures\"] == nil {",
+  "return fmt.Errorf(\"No signatures\")",
+  "}",
+  "if err := json.Unmarshal(*object[\"signatures\"], &signatures); err != nil {",
+  "return err",
+  "}",
+  "signature, ok := signatures[signingName][keyID]",
+  "if !ok {",
+  "return fmt.Errorf(\"No signature from %q with ID %q\", signingName, keyID)",
+  "}",
+  "if len(signature) != ed25519.SignatureSize {",
+  "return fmt.Errorf(\"Bad signature length from %q with ID %q\", signingName, keyID)",
+  "}",
+  "if len(publicKey) != ed25519.PublicKeySize {",
+  "return fmt.Errorf(\"Bad public key length for %q with ID %q\", signingName, keyID)",
+  "}",
+  "delete(object, \"unsigned\")",
+  "delete(object, \"signatures\")",
+  "unsorted, err := json.Marshal(object)",
+  "if err != nil {",
+  "return err",
+  "}",
+  "canonical, err := CanonicalJSON(unsorted)",
+  "if err != nil {",
+  "return err",
+  "}",
+  "if !ed25519.Verify(publicKey, canonical, signature) {",
+  "return fmt.Errorf(\"Bad signature from %q with ID %q\", signingName, keyID)",
+  "}",
+  "return nil"
+]
+
 def spec_senderid_SenderID_IsPseudoID : List String := [
   "func func() bool",
   "return !s.IsUserID()"
@@ -53,6 +3429,655 @@ def spec_senderid__SenderIDFromUserID : List String := [
   "return SenderID(user.String())"
 ]
 
-def functions : List String := ["spec/senderid.go:SenderID.IsPseudoID", "spec/senderid.go:SenderID.IsUserID", "spec/senderid.go:SenderID.RawBytes", "spec/senderid.go:SenderID.ToPseudoID", "spec/senderid.go:SenderID.ToUserID", "spec/senderid.go:.SenderIDFromPseudoIDKey", "spec/senderid.go:.SenderIDFromUserID"]
+def stateresolutionv2__HeaderedReverseTopologicalOrdering : List String := [
+  "func func(events []PDU, order TopologicalOrder) []PDU",
+  "r := stateResolverV2{resolvedCreate: getCreateEvent(events)}",
+  "input := make([]PDU, len(events))",
+  "for i := range events {",
+  "unwrapped := events[i]",
+  "input[i] = unwrapped",
+  "}",
+  "result := make([]PDU, len(input))",
+  "for i, e := range r.reverseTopologicalOrdering(input, order) {",
+  "result[i] = e",
+  "}",
+  "return result"
+]
+
+def stateresolutionv2__ResolveStateConflictsV2 : List String := [
+  "func func(conflicted, unconflicted, authEvents []PDU, userIDForSender spec.UserIDForSender, isRejectedFn IsRejected) []PDU",
+  "var createEvent PDU",
+  "for _, ev := range authEvents {",
+  "if ev.Type() == spec.MRoomCreate && ev.StateKeyEquals(\"\") {",
+  "createEvent = ev",
+  "break",
+  "}",
+  "}",
+  "if createEvent == nil {",
+  "return nil",
+  "}",
+  "conflictedControlEvents := make([]PDU, 0, len(conflicted))",
+  "conflictedOthers := make([]PDU, 0, len(conflicted))",
+  "authProvider, _ := NewAuthEvents(nil)",
+  "r := stateResolverV2{authEventMap: eventMapFromEvents(authEvents), authProvider: authProvider, conflictedEventMap: eventMapFromEvents(conflicted), powerLevelContents: make(map[string]*PowerLevelContent), powerLevelMainlinePos: make(map[string]int), resolvedThirdPartyInvites: make(map[string]PDU, len(conflicted)), resolvedMembers: make(map[spec.SenderID]PDU, len(conflicted)), resolvedOthers: make(map[StateKeyTuple]PDU, len(conflicted)), result: make([]PDU, 0, len(conflicted)+len(unconflicted)), isRejectedFn: isRejectedFn, isRejectedCache: make(map[string]bool)}",
+  "var roomID *spec.RoomID",
+  "if len(conflicted) > 0 {",
+  "validRoomID := conflicted[0].RoomID()",
+  "roomID = &validRoomID",
+  "}",
+  "if len(unconflicted) > 0 {",
+  "validRoomID := unconflicted[0].RoomID()",
+  "roomID = &validRoomID",
+  "}",
+  "if len(authEvents) > 0 {",
+  "validRoomID := authEvents[0].RoomID()",
+  "roomID = &validRoomID",
+  "}",
+  "if roomID == nil {",
+  "return r.result",
+  "}",
+  "r.allower = newAllowerContext(r.authProvider, userIDForSender, *roomID)",
+  "isUnconflicted := make(map[string]struct{}, len(unconflicted))",
+  "for _, u := range unconflicted {",
+  "isUnconflicted[u.EventID()] = struct{}{}",
+  "}",
+  "fullConflictedSet := append(conflicted, r.calculateAuthDifference()...)",
+  "visited := make(map[string]struct{}, len(conflicted)+len(authEvents))",
+  "var fullControlSet func(event PDU) []PDU",
+  "fullControlSet = func(event PDU) []PDU { events := []PDU{event} for _, authEventID := range event.AuthEventIDs() { if _, ok := visited[authEventID]; ok { continue } if event, ok := r.conflictedEventMap[authEventID]; ok { events = append(events, fullControlSet(event)...) } visited[authEventID] = struct{}{} } return events }",
+  "conflictedPulledIn := make(map[string]struct{}, len(conflicted)+len(authEvents))",
+  "for _, p := range fullConflictedSet {",
+  "if _, unconflicted := isUnconflicted[p.EventID()]; unconflicted {",
+  "continue",
+  "}",
+  "if isControlEvent(p) {",
+  "relatedEvents := fullControlSet(p)",
+  "for _, event := range relatedEvents {",
+  "conflictedPulledIn[event.EventID()] = struct{}{}",
+  "}",
+  "conflictedControlEvents = append(conflictedControlEvents, relatedEvents...)",
+  "}",
+  "}",
+  "for _, p := range fullConflictedSet {",
+  "eventID := p.EventID()",
+  "if _, unconflicted := isUnconflicted[eventID]; unconflicted || isControlEvent(p) {",
+  "continue",
+  "}",
+  "if _, ok := conflictedPulledIn[eventID]; !ok {",
+  "conflictedOthers = append(conflictedOthers, p)",
+  "}",
+  "}",
+  "r.applyEvents(unconflicted...)",
+  "conflictedControlEvents = r.reverseTopologicalOrdering(conflictedControlEvents, TopologicalOrderByAuthEvents)",
+  "r.authAndApplyEvents(conflictedControlEvents...)",
+  "for pos, event := range r.createPowerLevelMainline() {",
+  "r.powerLevelMainlinePos[event.EventID()] = pos",
+  "}",
+  "conflictedOthers = r.mainlineOrdering(conflictedOthers)",
+  "r.authAndApplyEvents(conflictedOthers...)",
+  "r.applyEvents(unconflicted...)",
+  "if r.resolvedCreate != nil {",
+  "r.result = append(r.result, r.resolvedCreate)",
+  "}",
+  "if r.resolvedJoinRules != nil {",
+  "r.result = append(r.result, r.resolvedJoinRules)",
+  "}",
+  "if r.resolvedPowerLevels != nil {",
+  "r.result = append(r.result, r.resolvedPowerLevels)",
+  "}",
+  "for _, member := range r.resolvedMembers {",
+  "r.result = append(r.result, member)",
+  "}",
+  "for _, invite := range r.resolvedThirdPartyInvites {",
+  "r.result = append(r.result, invite)",
+  "}",
+  "for _, other := range r.resolvedOthers {",
+  "r.result = append(r.result, other)",
+  "}",
+  "return r.result"
+]
+
+def stateresolutionv2__ResolveStateConflictsV2New : List String := [
+  "func func(stateResAlgo StateResAlgorithm, stateSets [][]PDU, authEvents []PDU, userIDForSender spec.UserIDForSender, isRejectedFn IsRejected) []PDU",
+  "if len(stateSets) < 2 {",
+  "panic(\"must provide at least 2 stateSets to resolve conflicts\")",
+  "}",
+  "conflicted, unconflicted := splitConflictedUnconflicted(stateResAlgo, stateSets)",
+  "conflictedControlEvents := make([]PDU, 0, len(conflicted))",
+  "conflictedOthers := make([]PDU, 0, len(conflicted))",
+  "authProvider, _ := NewAuthEvents(nil)",
+  "r := stateResolverV2{authEventMap: eventMapFromEvents(authEvents), authProvider: authProvider, conflictedEventMap: eventMapFromEvents(conflicted), powerLevelContents: make(map[string]*PowerLevelContent), powerLevelMainlinePos: make(map[string]int), resolvedThirdPartyInvites: make(map[string]PDU, len(conflicted)), resolvedMembers: make(map[spec.SenderID]PDU, len(conflicted)), resolvedOthers: make(map[StateKeyTuple]PDU, len(conflicted)), result: make([]PDU, 0, len(conflicted)+len(unconflicted)), isRejectedFn: isRejectedFn, isRejectedCache: make(map[string]bool)}",
+  "var roomID *spec.RoomID",
+  "if len(conflicted) > 0 {",
+  "validRoomID := conflicted[0].RoomID()",
+  "roomID = &validRoomID",
+  "}",
+  "if len(unconflicted) > 0 {",
+  "validRoomID := unconflicted[0].RoomID()",
+  "roomID = &validRoomID",
+  "}",
+  "if len(authEvents) > 0 {",
+  "validRoomID := authEvents[0].RoomID()",
+  "roomID = &validRoomID",
+  "}",
+  "if roomID == nil {",
+  "return r.result",
+  "}",
+  "r.allower = newAllowerContext(r.authProvider, userIDForSender, *roomID)",
+  "if r.createEvent = getCreateEvent(unconflicted); r.createEvent == nil {",
+  "if r.createEvent = getCreateEvent(authEvents); r.createEvent == nil {",
+  "r.createEvent = getCreateEvent(conflicted)",
+  "}",
+  "}",
+  "unconflictedSet := newPDUSet(unconflicted)",
+  "fullConflictedSet := append(conflicted, r.calculateAuthDifferenceNew(stateResAlgo, newPDUSet(conflicted), stateSets)...)",
+  "visited := make(map[string]struct{}, len(conflicted)+len(authEvents))",
+  "var fullControlSet func(event PDU) []PDU",
+  "fullControlSet = func(event PDU) []PDU { events := []PDU{event} for _, authEventID := range event.AuthEventIDs() { if _, ok := visited[authEventID]; ok { continue } if event, ok := r.conflictedEventMap[authEventID]; ok { events = append(events, fullControlSet(event)...) } visited[authEventID] = struct{}{} } return events }",
+  "conflictedPulledIn := make(map[string]struct{}, len(conflicted)+len(authEvents))",
+  "for _, p := range fullConflictedSet {",
+  "if unconflictedSet.Contains(p) {",
+  "continue",
+  "}",
+  "if isControlEvent(p) {",
+  "relatedEvents := fullControlSet(p)",
+  "for _, event := range relatedEvents {",
+  "conflictedPulledIn[event.EventID()] = struct{}{}",
+  "}",
+  "conflictedControlEvents = append(conflictedControlEvents, relatedEvents...)",
+  "}",
+  "}",
+  "for _, p := range fullConflictedSet {",
+  "if unconflictedSet.Contains(p) || isControlEvent(p) {",
+  "continue",
+  "}",
+  "if _, ok := conflictedPulledIn[p.EventID()]; !ok {",
+  "conflictedOthers = append(conflictedOthers, p)",
+  "}",
+  "}",
+  "if stateResAlgo == StateResV2 {",
+  "unconflicted = r.reverseTopologicalOrdering(unconflicted, TopologicalOrderByAuthEvents)",
+  "r.applyEvents(unconflicted...)",
+  "}",
+  "conflictedControlEvents = r.reverseTopologicalOrdering(conflictedControlEvents, TopologicalOrderByAuthEvents)",
+  "r.authAndApplyEvents(conflictedControlEvents...)",
+  "for pos, event := range r.createPowerLevelMainline() {",
+  "r.powerLevelMainlinePos[event.EventID()] = pos",
+  "}",
+  "conflictedOthers = r.mainlineOrdering(conflictedOthers)",
+  "r.authAndApplyEvents(conflictedOthers...)",
+  "r.applyEvents(unconflicted...)",
+  "if r.resolvedCreate != nil {",
+  "r.result = append(r.result, r.resolvedCreate)",
+  "}",
+  "if r.resolvedJoinRules != nil {",
+  "r.result = append(r.result, r.resolvedJoinRules)",
+  "}",
+  "if r.resolvedPowerLevels != nil {",
+  "r.result = append(r.result, r.resolvedPowerLevels)",
+  "}",
+  "for _, member := range r.resolvedMembers {",
+  "r.result = append(r.result, member)",
+  "}",
+  "for _, invite := range r.resolvedThirdPartyInvites {",
+  "r.result = append(r.result, invite)",
+  "}",
+  "for _, other := range r.resolvedOthers {",
+  "r.result = append(r.result, other)",
+  "}",
+  "return r.result"
+]
+
+def stateresolutionv2__ReverseTopologicalOrdering : List String := [
+  "func func(input []PDU, order TopologicalOrder) []PDU",
+  "r := stateResolverV2{resolvedCreate: getCreateEvent(input)}",
+  "return r.reverseTopologicalOrdering(input, order)"
+]
+
+def stateresolutionv2__creatorsFromCreateEventOrNone : List String := [
+  "func func(createEvent PDU) []string",
+  "creators := []string{string(createEvent.SenderID())}",
+  "var content CreateContent",
+  "if err := json.Unmarshal(createEvent.Content(), &content); err != nil {",
+  "return creators",
+  "}",
+  "return append(creators, content.AdditionalCreators...)"
+]
+
+def stateresolutionv2__eventMapFromEvents : List String := [
+  "func func(events []PDU) map[string]PDU",
+  "r := make(map[string]PDU, len(events))",
+  "for _, e := range events {",
+  "if _, ok := r[e.EventID()]; !ok {",
+  "r[e.EventID()] = e",
+  "}",
+  "}",
+  "return r"
+]
+
+def stateresolutionv2__getCreateEvent : List String := [
+  "func func(input []PDU) PDU",
+  "for _, ev := range input {",
+  "if ev.Type() == spec.MRoomCreate && ev.StateKeyEquals(\"\") {",
+  "return ev",
+  "}",
+  "}",
+  "return nil"
+]
+
+def stateresolutionv2__isControlEvent : List String := [
+  "func func(e PDU) bool",
+  "switch e.Type() {",
+  "case spec.MRoomPowerLevels:",
+  "return e.StateKeyEquals(\"\")",
+  "case spec.MRoomJoinRules:",
+  "return e.StateKeyEquals(\"\")",
+  "case spec.MRoomMember:",
+  "if e.StateKey() == nil || e.StateKeyEquals(\"\") {",
+  "break",
+  "}",
+  "if e.StateKeyEquals(string(e.SenderID())) {",
+  "break",
+  "}",
+  "var content MemberContent",
+  "if err := json.Unmarshal(e.Content(), &content); err != nil {",
+  "break",
+  "}",
+  "if content.Membership == spec.Leave || content.Membership == spec.Ban {",
+  "return true",
+  "}",
+  "default:",
+  "}",
+  "return false"
+]
+
+def stateresolutionv2__kahnsAlgorithmUsingAuthEvents : List String := [
+  "func func(events []*stateResV2ConflictedPowerLevel) []*stateResV2ConflictedPowerLevel",
+  "eventMap := make(map[string]*stateResV2ConflictedPowerLevel, len(events))",
+  "graph := make([]*stateResV2ConflictedPowerLevel, 0, len(events))",
+  "inDegree := make(map[string]int, len(events))",
+  "for _, event := range events {",
+  "if _, seen := eventMap[event.eventID]; seen {",
+  "continue",
+  "}",
+  "eventMap[event.eventID] = event",
+  "if _, ok := inDegree[event.eventID]; !ok {",
+  "inDegree[event.eventID] = 0",
+  "}",
+  "for _, auth := range event.event.AuthEventIDs() {",
+  "inDegree[auth]++",
+  "}",
+  "}",
+  "noIncoming := make(stateResV2ConflictedPowerLevelHeap, 0, len(events))",
+  "for eventID, count := range inDegree {",
+  "if count == 0 {",
+  "noIncoming.Push(eventMap[eventID])",
+  "delete(eventMap, eventID)",
+  "}",
+  "}",
+  "slices.SortStableFunc(noIncoming, sortStateResV2ConflictedPowerLevelHeap)",
+  "for ; len(noIncoming) > 0;  {",
+  "event := noIncoming.Pop()",
+  "graph = append(graph, nil)",
+  "copy(graph[1:], graph)",
+  "graph[0] = event",
+  "for _, auth := range event.event.AuthEventIDs() {",
+  "inDegree[auth]--",
+  "if inDegree[auth] == 0 {",
+  "if _, ok := eventMap[auth]; ok {",
+  "noIncoming.Push(eventMap[auth])",
+  "delete(eventMap, auth)",
+  "}",
+  "}",
+  "}",
+  "slices.SortStableFunc(noIncoming, sortStateResV2ConflictedPowerLevelHeap)",
+  "}",
+  "if len(eventMap) > 0 {",
+  "remaining := make(stateResV2ConflictedPowerLevelHeap, 0, len(events))",
+  "for _, event := range eventMap {",
+  "remaining.Push(event)",
+  "}",
+  "slices.SortStableFunc(remaining, sortStateResV2ConflictedPowerLevelHeap)",
+  "graph = append(remaining, graph...)",
+  "}",
+  "return graph"
+]
+
+def stateresolutionv2__kahnsAlgorithmUsingPrevEvents : List String := [
+  "func func(events []*stateResV2ConflictedOther) []*stateResV2ConflictedOther",
+  "eventMap := make(map[string]*stateResV2ConflictedOther, len(events))",
+  "graph := make([]*stateResV2ConflictedOther, 0, len(events))",
+  "inDegree := make(map[string]int, len(events))",
+  "for _, event := range events {",
+  "if _, seen := eventMap[event.eventID]; seen {",
+  "continue",
+  "}",
+  "eventMap[event.eventID] = event",
+  "if _, ok := inDegree[event.eventID]; !ok {",
+  "inDegree[event.eventID] = 0",
+  "}",
+  "for _, prev := range event.event.PrevEventIDs() {",
+  "inDegree[prev]++",
+  "}",
+  "}",
+  "noIncoming := make(stateResV2ConflictedOtherHeap, 0, len(events))",
+  "for eventID, count := range inDegree {",
+  "if count == 0 {",
+  "noIncoming.Push(eventMap[eventID])",
+  "delete(eventMap, eventID)",
+  "}",
+  "}",
+  "slices.SortStableFunc(noIncoming, sortStateResV2ConflictedOtherHeap)",
+  "for ; len(noIncoming) > 0;  {",
+  "event := noIncoming.Pop()",
+  "graph = append(graph, nil)",
+  "copy(graph[1:], graph)",
+  "graph[0] = event",
+  "for _, prev := range event.event.PrevEventIDs() {",
+  "inDegree[prev]--",
+  "if inDegree[prev] == 0 {",
+  "if _, ok := eventMap[prev]; ok {",
+  "noIncoming.Push(eventMap[prev])",
+  "delete(eventMap, prev)",
+  "}",
+  "}",
+  "}",
+  "slices.SortStableFunc(noIncoming, sortStateResV2ConflictedOtherHeap)",
+  "}",
+  "if len(eventMap) > 0 {",
+  "remaining := make(stateResV2ConflictedOtherHeap, 0, len(events))",
+  "for _, event := range eventMap {",
+  "remaining = append(remaining, event)",
+  "}",
+  "slices.SortStableFunc(remaining, sortStateResV2ConflictedOtherHeap)",
+  "graph = append(remaining, graph...)",
+  "}",
+  "return graph"
+]
+
+def stateresolutionv2__newPDUSet : List String := [
+  "func func(pdus []PDU) *sets.HashSet[PDU, string]",
+  "s := sets.NewHashSetFunc[PDU, string](len(pdus), func(p PDU) string { return p.EventID() })",
+  "s.InsertSlice(pdus)",
+  "return s"
+]
+
+def stateresolutionv2_stateResolverV2_applyEvents : List String := [
+  "func func(events ...PDU)",
+  "for _, event := range events {",
+  "if st, sk := event.Type(), event.StateKey(); sk == nil {",
+  "continue",
+  "} else if *sk == \"\" {",
+  "switch st {",
+  "case spec.MRoomCreate:",
+  "r.resolvedCreate = event",
+  "case spec.MRoomPowerLevels:",
+  "r.resolvedPowerLevels = event",
+  "case spec.MRoomJoinRules:",
+  "r.resolvedJoinRules = event",
+  "default:",
+  "r.resolvedOthers[StateKeyTuple{st, *sk}] = event",
+  "}",
+  "} else {",
+  "switch st {",
+  "case spec.MRoomThirdPartyInvite:",
+  "r.resolvedThirdPartyInvites[*sk] = event",
+  "case spec.MRoomMember:",
+  "r.resolvedMembers[spec.SenderID(*sk)] = event",
+  "default:",
+  "r.resolvedOthers[StateKeyTuple{st, *sk}] = event",
+  "}",
+  "}",
+  "}"
+]
+
+def stateresolutionv2_stateResolverV2_authAndApplyEvents : List String := [
+  "func func(events ...PDU)",
+  "addFromAuthEventsIfNotRejected := func(event PDU, eventType, stateKey string) { for _, authEventID := range event.AuthEventIDs() { rejected, ok := r.isRejectedCache[authEventID] if !ok { rejected = r.isRejectedFn(authEventID) r.isRejectedCache[authEventID] = rejected } if rejected { continue } authEv, ok := r.authEventMap[authEventID] if !ok { continue } if authEv.Type() != eventType || !authEv.StateKeyEquals(stateKey) { continue } _ = r.authProvider.AddEvent(authEv) } }",
+  "for _, event := range events {",
+  "r.authProvider.Clear()",
+  "needed := StateNeededForAuth([]PDU{event})",
+  "if resolved := r.resolvedCreate; needed.Create {",
+  "if resolved != nil {",
+  "_ = r.authProvider.AddEvent(resolved)",
+  "} else {",
+  "addFromAuthEventsIfNotRejected(event, spec.MRoomCreate, \"\")",
+  "}",
+  "}",
+  "if resolved := r.resolvedJoinRules; needed.JoinRules {",
+  "if resolved != nil {",
+  "_ = r.authProvider.AddEvent(resolved)",
+  "} else {",
+  "addFromAuthEventsIfNotRejected(event, spec.MRoomJoinRules, \"\")",
+  "}",
+  "}",
+  "if resolved := r.resolvedPowerLevels; needed.PowerLevels {",
+  "if resolved != nil {",
+  "_ = r.authProvider.AddEvent(resolved)",
+  "} else {",
+  "addFromAuthEventsIfNotRejected(event, spec.MRoomPowerLevels, \"\")",
+  "}",
+  "}",
+  "for _, needed := range needed.Member {",
+  "if resolved := r.resolvedMembers[spec.SenderID(needed)]; resolved != nil {",
+  "_ = r.authProvider.AddEvent(resolved)",
+  "} else {",
+  "addFromAuthEventsIfNotRejected(event, spec.MRoomMember, needed)",
+  "}",
+  "}",
+  "for _, needed := range needed.ThirdPartyInvite {",
+  "if resolved := r.resolvedThirdPartyInvites[needed]; resolved != nil {",
+  "_ = r.authProvider.AddEvent(resolved)",
+  "} else {",
+  "addFromAuthEventsIfNotRejected(event, spec.MRoomThirdPartyInvite, needed)",
+  "}",
+  "}",
+  "r.allower.update(r.authProvider)",
+  "if err := r.allower.allowed(event); err != nil {",
+  "continue",
+  "}",
+  "r.applyEvents(event)",
+  "}"
+]
+
+def stateresolutionv2_stateResolverV2_calculateAuthDifference : List String := [
+  "func func() []PDU",
+  "authDifference := make([]PDU, 0, len(r.conflictedEventMap)*3)",
+  "authSets := make(map[string]map[string]PDU, len(r.conflictedEventMap))",
+  "isInAuthList := func(k string, event PDU) bool { events, ok := authSets[k] if !ok { return false } _, ok = events[event.EventID()] return ok }",
+  "isInAllAuthLists := func(event PDU) bool { for k, event := range authSets[event.EventID()] { if !isInAuthList(k, event) { return false } } return true }",
+  "var iter func(eventID string, event PDU)",
+  "iter = func(eventID string, event PDU) { for _, authEventID := range event.AuthEventIDs() { authEvent, ok := r.authEventMap[authEventID] if !ok { continue } if _, ok := authSets[eventID]; !ok { authSets[eventID] = map[string]PDU{} } if _, ok := authSets[eventID][authEventID]; ok { continue } authSets[eventID][authEventID] = authEvent iter(eventID, authEvent) } }",
+  "for conflictedEventID, conflictedEvent := range r.conflictedEventMap {",
+  "iter(conflictedEventID, conflictedEvent)",
+  "}",
+  "for _, event := range r.authEventMap {",
+  "if !isInAllAuthLists(event) {",
+  "authDifference = append(authDifference, event)",
+  "}",
+  "}",
+  "return authDifference"
+]
+
+def stateresolutionv2_stateResolverV2_calculateAuthDifferenceNew : List String := [
+  "func func(stateResAlgo StateResAlgorithm, conflictedEvents *sets.HashSet[PDU, string], stateSets [][]PDU) []PDU",
+  "fullAuthChains := make([]*sets.HashSet[PDU, string], len(stateSets))",
+  "completeConflictedSubgraph := newPDUSet(nil)",
+  "for i, stateEvents := range stateSets {",
+  "fullAuthChain, conflictedSubgraph := r.calculateFullAuthChainAndConflictedSubgraph(stateResAlgo, stateEvents, conflictedEvents)",
+  "fullAuthChains[i] = fullAuthChain",
+  "if stateResAlgo == StateResV2_1 {",
+  "completeConflictedSubgraph.InsertSet(conflictedSubgraph)",
+  "}",
+  "}",
+  "union := newPDUSet(nil)",
+  "for _, fac := range fullAuthChains {",
+  "union.InsertSet(fac)",
+  "}",
+  "var intersection sets.Collection[PDU] = fullAuthChains[0]",
+  "for _, fac := range fullAuthChains[1:] {",
+  "intersection = intersection.Intersect(fac)",
+  "}",
+  "authDifference := union.Difference(intersection)",
+  "if stateResAlgo == StateResV2 {",
+  "return authDifference.Slice()",
+  "}",
+  "return authDifference.Union(completeConflictedSubgraph).Slice()"
+]
+
+def stateresolutionv2_stateResolverV2_calculateFullAuthChainAndConflictedSubgraph : List String := [
+  "func func(stateResAlgo StateResAlgorithm, stateSet []PDU, conflictedEvents *sets.HashSet[PDU, string]) (fullAuthChains, conflictedSubgraph *sets.HashSet[PDU, string])",
+  "fullAuthChains = newPDUSet(nil)",
+  "conflictedSubgraph = newPDUSet(nil)",
+  "type pduVisitors struct { pdu PDU visiting [ // the current exploration path ]PDU originConflicted bool }// flag to indicate that the starting node is conflicted. // We are only interested in doing the book-keeping for 'visiting' for conflicted events.",
+  "initial := make([]pduVisitors, len(stateSet))",
+  "for i, p := range stateSet {",
+  "initial[i] = pduVisitors{pdu: p, visiting: nil, originConflicted: conflictedEvents.Contains(p)}",
+  "}",
+  "stack := lane.NewStack(initial...)",
+  "for ; stack.Size() > 0;  {",
+  "curr, ok := stack.Pop()",
+  "if !ok {",
+  "break",
+  "}",
+  "shouldCalculateConflictedSubgraph := stateResAlgo == StateResV2_1 && curr.originConflicted",
+  "if shouldCalculateConflictedSubgraph && conflictedEvents.Contains(curr.pdu) {",
+  "for _, pathEvent := range curr.visiting {",
+  "conflictedSubgraph.Insert(pathEvent)",
+  "}",
+  "conflictedSubgraph.Insert(curr.pdu)",
+  "}",
+  "for _, authEventID := range curr.pdu.AuthEventIDs() {",
+  "authEvent, ok := r.authEventMap[authEventID]",
+  "if !ok {",
+  "continue",
+  "}",
+  "if fullAuthChains.Contains(authEvent) {",
+  "if !shouldCalculateConflictedSubgraph {",
+  "continue",
+  "}",
+  "}",
+  "fullAuthChains.Insert(authEvent)",
+  "if !shouldCalculateConflictedSubgraph {",
+  "stack.Push(pduVisitors{pdu: authEvent, visiting: nil})",
+  "continue",
+  "}",
+  "newVisiting := append(slices.Clone(curr.visiting), curr.pdu)",
+  "stack.Push(pduVisitors{pdu: authEvent, visiting: newVisiting, originConflicted: curr.originConflicted})",
+  "}",
+  "}",
+  "return fullAuthChains, conflictedSubgraph"
+]
+
+def stateresolutionv2_stateResolverV2_createPowerLevelMainline : List String := [
+  "func func() []PDU",
+  "var mainline []PDU",
+  "var iter func(event PDU)",
+  "iter = func(event PDU) { mainline = append(mainline, nil) copy(mainline[1:], mainline) mainline[0] = event for _, authEventID := range event.AuthEventIDs() { if authEvent, ok := r.authEventMap[authEventID]; ok { if authEvent.Type() == spec.MRoomPowerLevels && authEvent.StateKeyEquals(\"\") { iter(authEvent) } } } }",
+  "if r.resolvedPowerLevels != nil {",
+  "iter(r.resolvedPowerLevels)",
+  "}",
+  "return mainline"
+]
+
+def stateresolutionv2_stateResolverV2_getFirstPowerLevelMainlineEvent : List String := [
+  "func func(event PDU) (mainlineEvent PDU, mainlinePosition int, steps int)",
+  "isInMainline := func(searchEvent PDU) (int, bool) { pos, ok := r.powerLevelMainlinePos[searchEvent.EventID()] return pos, ok }",
+  "var iter func(event PDU)",
+  "iter = func(event PDU) { for _, authEventID := range event.AuthEventIDs() { authEvent, ok := r.authEventMap[authEventID] if !ok { continue } if authEvent.Type() != spec.MRoomPowerLevels || !authEvent.StateKeyEquals(\"\") { continue } if pos, isIn := isInMainline(authEvent); isIn { mainlineEvent = authEvent mainlinePosition = pos r.powerLevelMainlinePos[mainlineEvent.EventID()] = mainlinePosition return } steps++ iter(authEvent) } }",
+  "iter(event)",
+  "return"
+]
+
+def stateresolutionv2_stateResolverV2_getPowerLevelFromAuthEvents : List String := [
+  "func func(event PDU) int64",
+  "user := event.SenderID()",
+  "verImpl := MustGetRoomVersion(event.Version())",
+  "if verImpl.PrivilegedCreators() {",
+  "createEvent := r.resolvedCreate",
+  "if createEvent == nil {",
+  "createEvent = r.createEvent",
+  "}",
+  "if createEvent != nil {",
+  "for _, creator := range creatorsFromCreateEventOrNone(createEvent) {",
+  "if creator == string(user) {",
+  "return CreatorPowerLevel",
+  "}",
+  "}",
+  "}",
+  "}",
+  "for _, authID := range event.AuthEventIDs() {",
+  "authEvent, ok := r.authEventMap[authID]",
+  "if !ok {",
+  "continue",
+  "}",
+  "if authEvent.Type() != spec.MRoomPowerLevels || !authEvent.StateKeyEquals(\"\") {",
+  "continue",
+  "}",
+  "content, ok := r.powerLevelContents[authID]",
+  "if !ok {",
+  "parsed, err := NewPowerLevelContentFromEvent(authEvent)",
+  "if err != nil {",
+  "return 0",
+  "}",
+  "content = &parsed",
+  "r.powerLevelContents[authID] = content",
+  "}",
+  "return content.UserLevel(user)",
+  "}",
+  "return 0"
+]
+
+def stateresolutionv2_stateResolverV2_mainlineOrdering : List String := [
+  "func func(events []PDU) []PDU",
+  "block := r.wrapOtherEventsForSort(events)",
+  "result := make([]PDU, 0, len(block))",
+  "slices.SortStableFunc(block, sortStateResV2ConflictedOtherHeap)",
+  "for _, s := range block {",
+  "result = append(result, s.event)",
+  "}",
+  "return result"
+]
+
+def stateresolutionv2_stateResolverV2_reverseTopologicalOrdering : List String := [
+  "func func(events []PDU, order TopologicalOrder) []PDU",
+  "result := make([]PDU, 0, len(events))",
+  "switch order {",
+  "case TopologicalOrderByAuthEvents:",
+  "block := r.wrapPowerLevelEventsForSort(events)",
+  "for _, s := range kahnsAlgorithmUsingAuthEvents(block) {",
+  "result = append(result, s.event)",
+  "}",
+  "case TopologicalOrderByPrevEvents:",
+  "block := r.wrapOtherEventsForSort(events)",
+  "for _, s := range kahnsAlgorithmUsingPrevEvents(block) {",
+  "result = append(result, s.event)",
+  "}",
+  "default:",
+  "panic(fmt.Sprintf(\"gomatrixserverlib.reverseTopologicalOrdering unknown Ordering %d\", order))",
+  "}",
+  "return result"
+]
+
+def stateresolutionv2_stateResolverV2_wrapOtherEventsForSort : List String := [
+  "func func(events []PDU) []*stateResV2ConflictedOther",
+  "block := make([]*stateResV2ConflictedOther, len(events))",
+  "for i, event := range events {",
+  "_, pos, steps := r.getFirstPowerLevelMainlineEvent(event)",
+  "block[i] = &stateResV2ConflictedOther{mainlinePosition: pos, mainlineSteps: steps, originServerTS: event.OriginServerTS(), eventID: event.EventID(), event: event}",
+  "}",
+  "return block"
+]
+
+def stateresolutionv2_stateResolverV2_wrapPowerLevelEventsForSort : List String := [
+  "func func(events []PDU) []*stateResV2ConflictedPowerLevel",
+  "block := make([]*stateResV2ConflictedPowerLevel, len(events))",
+  "for i, event := range events {",
+  "block[i] = &stateResV2ConflictedPowerLevel{powerLevel: r.getPowerLevelFromAuthEvents(event), originServerTS: event.OriginServerTS(), eventID: event.EventID(), event: event}",
+  "}",
+  "return block"
+]
+
+def functions : List String := ["eventV1.go:.newEventFromTrustedJSONV1", "eventV1.go:.newEventFromTrustedJSONWithEventIDV1", "eventV1.go:.newEventFromUntrustedJSONV1", "eventV1.go:eventV1.AuthEventIDs", "eventV1.go:eventV1.Content", "eventV1.go:eventV1.Depth", "eventV1.go:eventV1.EventID", "eventV1.go:eventV1.HistoryVisibility", "eventV1.go:eventV1.IsSticky", "eventV1.go:eventV1.JSON", "eventV1.go:eventV1.JoinRule", "eventV1.go:eventV1.MarshalJSON", "eventV1.go:eventV1.Membership", "eventV1.go:eventV1.OriginServerTS", "eventV1.go:eventV1.PowerLevels", "eventV1.go:eventV1.PrevEventIDs", "eventV1.go:eventV1.Redact", "eventV1.go:eventV1.Redacted", "eventV1.go:eventV1.Redacts", "eventV1.go:eventV1.RoomID", "eventV1.go:eventV1.SenderID", "eventV1.go:eventV1.SetUnsigned", "eventV1.go:eventV1.SetUnsignedField", "eventV1.go:eventV1.Sign", "eventV1.go:eventV1.StateKey", "eventV1.go:eventV1.StateKeyEquals", "eventV1.go:eventV1.StickyEndTime", "eventV1.go:eventV1.ToHeaderedJSON", "eventV1.go:eventV1.Type", "eventV1.go:eventV1.Unsigned", "eventV1.go:eventV1.Version", "eventV1.go:eventV1.assumedStickyStartTime", "eventV1.go:eventV1.calculatedStickyEndTime", "eventV2.go:.CheckFields", "eventV2.go:.newEventFromTrustedJSONV2", "eventV2.go:.newEventFromTrustedJSONWithEventIDV2", "eventV2.go:.newEventFromUntrustedJSONV2", "eventV2.go:eventV2.AuthEventIDs", "eventV2.go:eventV2.EventID", "eventV2.go:eventV2.MarshalJSON", "eventV2.go:eventV2.PrevEventIDs", "eventV2.go:eventV2.Redact", "eventV2.go:eventV2.SenderID", "eventV2.go:eventV2.SetUnsigned", "eventV2.go:eventV2.Sign", "eventV2.go:eventV2.populateEventID", "eventV3.go:.checkRoomID", "eventV3.go:.newEventFromTrustedJSONV3", "eventV3.go:.newEventFromTrustedJSONWithEventIDV3", "eventV3.go:.newEventFromUntrustedJSONV3", "eventV3.go:eventV3.AuthEventIDs", "eventV3.go:eventV3.RoomID", "event.go:EventValidationError.Error", "event.go:.SplitID", "event.go:.checkID", "event.go:.checkRoomIDField", "eventauth.go:AuthEvents.AddEvent", "eventauth.go:AuthEvents.Clear", "eventauth.go:AuthEvents.Create", "eventauth.go:AuthEvents.JoinRules", "eventauth.go:AuthEvents.Member", "eventauth.go:AuthEvents.PowerLevels", "eventauth.go:AuthEvents.ThirdPartyInvite", "eventauth.go:AuthEvents.Valid", "eventauth.go:NotAllowed.Error", "eventauth.go:StateNeeded.AuthEventReferences", "eventauth.go:StateNeeded.Tuples", "eventauth.go:.Allowed", "eventauth.go:.NewAuthEvents", "eventauth.go:.StateNeededForAuth", "eventauth.go:.StateNeededForProtoEvent", "eventauth.go:.accumulateStateNeeded", "eventauth.go:.allowRestrictedJoins", "eventauth.go:.checkEventLevels", "eventauth.go:.checkKnocking", "eventauth.go:.checkPowerLevelEventV1", "eventauth.go:.checkPowerLevelEventV2", "eventauth.go:.checkPowerLevelEventV3", "eventauth.go:.checkUserLevels", "eventauth.go:.disallowKnocking", "eventauth.go:.disallowRestrictedJoins", "eventauth.go:.errorf", "eventauth.go:.newAllowerContext", "eventauth.go:.thirdPartyInviteToken", "eventauth.go:allowerContext.aliasEventAllowed", "eventauth.go:allowerContext.allowed", "eventauth.go:allowerContext.createEventAllowed", "eventauth.go:allowerContext.defaultEventAllowed", "eventauth.go:allowerContext.memberEventAllowed", "eventauth.go:allowerContext.newEventAllower", "eventauth.go:allowerContext.newMembershipAllower", "eventauth.go:allowerContext.powerLevelsEventAllowed", "eventauth.go:allowerContext.redactEventAllowed", "eventauth.go:allowerContext.resetCreate", "eventauth.go:allowerContext.update", "eventauth.go:allowerContext.userPowerLevel", "eventauth.go:eventAllower.commonChecks", "eventauth.go:membershipAllower.membershipAllowed", "eventauth.go:membershipAllower.membershipAllowedFromThirdPartyInvite", "eventauth.go:membershipAllower.membershipAllowedOther", "eventauth.go:membershipAllower.membershipAllowedSelf", "eventauth.go:membershipAllower.membershipAllowedSelfForRestrictedJoin", "eventauth.go:membershipAllower.membershipFailed", "eventcontent.go:CreateContent.DomainAllowed", "eventcontent.go:CreateContent.UserIDAllowed", "eventcontent.go:HistoryVisibility.Scan", "eventcontent.go:HistoryVisibility.Value", "eventcontent.go:MXIDMapping.Sign", "eventcontent.go:PowerLevelContent.Defaults", "eventcontent.go:PowerLevelContent.EventLevel", "eventcontent.go:PowerLevelContent.NotificationLevel", "eventcontent.go:PowerLevelContent.UserLevel", "eventcontent.go:.CreatorsFromCreateEvent", "eventcontent.go:.NewCreateContentFromAuthEvents", "eventcontent.go:.NewJoinRuleContentFromAuthEvents", "eventcontent.go:.NewMemberContentFromAuthEvents", "eventcontent.go:.NewMemberContentFromEvent", "eventcontent.go:.NewPowerLevelContentFromAuthEvents", "eventcontent.go:.NewPowerLevelContentFromEvent", "eventcontent.go:.NewThirdPartyInviteContentFromAuthEvents", "eventcontent.go:.checkCreateEventV1", "eventcontent.go:.checkCreateEventV2", "eventcontent.go:.checkCreateEventV3", "eventcontent.go:.domainFromID", "eventcontent.go:.isValidUserID", "eventcontent.go:.parseIntegerPowerLevels", "eventcontent.go:.parsePowerLevels", "eventcontent.go:levelJSONValue.UnmarshalJSON", "eventcontent.go:levelJSONValue.assignIfExists", "eventcrypto.go:.VerifyAllEventSignatures", "eventcrypto.go:.VerifyEventSignatures", "eventcrypto.go:.addContentHashesToEvent", "eventcrypto.go:.checkEventContentHash", "eventcrypto.go:.emptyAuthorisedViaServerName", "eventcrypto.go:.extractAuthorisedViaServerName", "eventcrypto.go:.getMXIDMapping", "eventcrypto.go:.referenceOfEvent", "eventcrypto.go:.referenceOfEventForVersion", "eventcrypto.go:.signEvent", "eventcrypto.go:.validateMXIDMappingSignatures", "eventversion.go:RoomVersionImpl.CheckCanonicalJSON", "eventversion.go:RoomVersionImpl.CheckCreateEvent", "eventversion.go:RoomVersionImpl.CheckKnockingAllowed", "eventversion.go:RoomVersionImpl.CheckPowerLevelEvent", "eventversion.go:RoomVersionImpl.CheckRestrictedJoin", "eventversion.go:RoomVersionImpl.CheckRestrictedJoinsAllowed", "eventversion.go:RoomVersionImpl.DomainlessRoomIDs", "eventversion.go:RoomVersionImpl.EventFormat", "eventversion.go:RoomVersionImpl.EventIDFormat", "eventversion.go:RoomVersionImpl.NewEventBuilder", "eventversion.go:RoomVersionImpl.NewEventBuilderFromProtoEvent", "eventversion.go:RoomVersionImpl.NewEventFromTrustedJSON", "eventversion.go:RoomVersionImpl.NewEventFromTrustedJSONWithEventID", "eventversion.go:RoomVersionImpl.NewEventFromUntrustedJSON", "eventversion.go:RoomVersionImpl.ParsePowerLevels", "eventversion.go:RoomVersionImpl.PrivilegedCreators", "eventversion.go:RoomVersionImpl.RedactEventJSON", "eventversion.go:RoomVersionImpl.RestrictedJoinServername", "eventversion.go:RoomVersionImpl.SignatureValidityCheck", "eventversion.go:RoomVersionImpl.Stable", "eventversion.go:RoomVersionImpl.StateResAlgorithm", "eventversion.go:RoomVersionImpl.Version", "eventversion.go:UnsupportedRoomVersionError.Error", "eventversion.go:.GetRoomVersion", "eventversion.go:.KnownRoomVersion", "eventversion.go:.MustGetRoomVersion", "eventversion.go:.NewEventFromHeaderedJSON", "eventversion.go:.RoomVersions", "eventversion.go:.SetRoomVersion", "eventversion.go:.StableRoomVersion", "eventversion.go:.StableRoomVersions", "fclient/federationtypes.go:DeviceKeys.Scan", "fclient/federationtypes.go:DeviceKeys.Value", "fclient/federationtypes.go:DeviceKeys.isCrossSigningBody", "fclient/federationtypes.go:MSC2836EventRelationshipsRequest.Defaults", "fclient/federationtypes.go:RespInvite.MarshalJSON", "fclient/federationtypes.go:RespInvite.UnmarshalJSON", "fclient/federationtypes.go:RespMakeJoin.GetJoinEvent", "fclient/federationtypes.go:RespMakeJoin.GetRoomVersion", "fclient/federationtypes.go:RespPeek.GetAuthEvents", "fclient/federationtypes.go:RespPeek.GetStateEvents", "fclient/federationtypes.go:RespPeek.MarshalJSON", "fclient/federationtypes.go:RespSendJoin.GetAuthEvents", "fclient/federationtypes.go:RespSendJoin.GetJoinEvent", "fclient/federationtypes.go:RespSendJoin.GetMembersOmitted", "fclient/federationtypes.go:RespSendJoin.GetOrigin", "fclient/federationtypes.go:RespSendJoin.GetServersInRoom", "fclient/federationtypes.go:RespSendJoin.GetStateEvents", "fclient/federationtypes.go:RespSendJoin.MarshalJSON", "fclient/federationtypes.go:RespStateIDs.GetAuthEventIDs", "fclient/federationtypes.go:RespStateIDs.GetStateEventIDs", "fclient/federationtypes.go:RespState.GetAuthEvents", "fclient/federationtypes.go:RespState.GetStateEvents", "fclient/federationtypes.go:RespState.MarshalJSON", "fclient/federationtypes.go:RespUserDevices.UnmarshalJSON", "fclient/federationtypes.go:.NewMSC2836EventRelationshipsRequest", "fclient/request.go:FederationRequest.Content", "fclient/request.go:FederationRequest.Destination", "fclient/request.go:FederationRequest.HTTPRequest", "fclient/request.go:FederationRequest.Method", "fclient/request.go:FederationRequest.Origin", "fclient/request.go:FederationRequest.RequestURI", "fclient/request.go:FederationRequest.SetContent", "fclient/request.go:FederationRequest.Sign", "fclient/request.go:.NewFederationRequest", "fclient/request.go:.ParseAuthorization", "fclient/request.go:.VerifyHTTPRequest", "fclient/request.go:.isSafeInHTTPQuotedString", "fclient/request.go:.readHTTPRequest", "json.go:EventJSONs.TrustedEvents", "json.go:EventJSONs.UntrustedEvents", "json.go:.CanonicalJSON", "json.go:.CanonicalJSONAssumeValid", "json.go:.CompactJSON", "json.go:.EnforcedCanonicalJSON", "json.go:.NewEventJSONsFromEvents", "json.go:.SortJSON", "json.go:.compactUnicodeEscape", "json.go:.isNegativeZeroLiteral", "json.go:.noVerifyCanonicalJSON", "json.go:.readHexDigits", "json.go:.sortJSONArray", "json.go:.sortJSONObject", "json.go:.sortJSONValue", "json.go:.verifyEnforcedCanonicalJSON", "keys.go:ServerKeys.MarshalJSON", "keys.go:ServerKeys.PublicKey", "keys.go:ServerKeys.UnmarshalJSON", "keys.go:.CheckKeys", "keys.go:.checkVerifyKeys", "signing.go:.ListKeyIDs", "signing.go:.SignJSON", "signing.go:.VerifyJSON", "spec/senderid.go:SenderID.IsPseudoID", "spec/senderid.go:SenderID.IsUserID", "spec/senderid.go:SenderID.RawBytes", "spec/senderid.go:SenderID.ToPseudoID", "spec/senderid.go:SenderID.ToUserID", "spec/senderid.go:.SenderIDFromPseudoIDKey", "spec/senderid.go:.SenderIDFromUserID", "stateresolutionv2.go:.HeaderedReverseTopologicalOrdering", "stateresolutionv2.go:.ResolveStateConflictsV2", "stateresolutionv2.go:.ResolveStateConflictsV2New", "stateresolutionv2.go:.ReverseTopologicalOrdering", "stateresolutionv2.go:.creatorsFromCreateEventOrNone", "stateresolutionv2.go:.eventMapFromEvents", "stateresolutionv2.go:.getCreateEvent", "stateresolutionv2.go:.isControlEvent", "stateresolutionv2.go:.kahnsAlgorithmUsingAuthEvents", "stateresolutionv2.go:.kahnsAlgorithmUsingPrevEvents", "stateresolutionv2.go:.newPDUSet", "stateresolutionv2.go:stateResolverV2.applyEvents", "stateresolutionv2.go:stateResolverV2.authAndApplyEvents", "stateresolutionv2.go:stateResolverV2.calculateAuthDifference", "stateresolutionv2.go:stateResolverV2.calculateAuthDifferenceNew", "stateresolutionv2.go:stateResolverV2.calculateFullAuthChainAndConflictedSubgraph", "stateresolutionv2.go:stateResolverV2.createPowerLevelMainline", "stateresolutionv2.go:stateResolverV2.getFirstPowerLevelMainlineEvent", "stateresolutionv2.go:stateResolverV2.getPowerLevelFromAuthEvents", "stateresolutionv2.go:stateResolverV2.mainlineOrdering", "stateresolutionv2.go:stateResolverV2.reverseTopologicalOrdering", "stateresolutionv2.go:stateResolverV2.wrapOtherEventsForSort", "stateresolutionv2.go:stateResolverV2.wrapPowerLevelEventsForSort"]
 
 end VPins.C18
